@@ -19,272 +19,23 @@ Ltac break_step :=
   end.
 Ltac break := repeat (break_step; cbn [r_state r_out r_exc done raise err] in * ).
 
-(** * The lock *)
-
-Definition lock_of (st : state) : bool := i_tx_locked (st_cur st).
-
-Lemma lock_with_db st db : lock_of (with_db st db) = lock_of st.
-Proof. reflexivity. Qed.
-Lemma lock_with_queues st q : lock_of (with_queues st q) = lock_of st.
-Proof. reflexivity. Qed.
-Lemma lock_with_subs st q : lock_of (with_subs st q) = lock_of st.
-Proof. reflexivity. Qed.
-Lemma lock_with_mtu st q : lock_of (with_mtu st q) = lock_of st.
-Proof. reflexivity. Qed.
-
-(** [locked] with the repaired txlock always ends unlocked (or did not run at all). *)
-Lemma locked_unlocks (st : state) body :
-  tx_locked st = false -> tx_locked (r_state (locked V_fixed st body)) = false.
-Proof.
-  intros H. unfold locked. rewrite H. cbn.
-  destruct (r_exc (body (with_lock st true))); reflexivity.
-Qed.
-
-Lemma handle_unlocked st r hk :
-  tx_locked st = false -> tx_locked (r_state (handle V_fixed st r hk)) = false.
-Proof.
-  intros H. destruct r; cbn [handle fx_rbt128 V_fixed]; try (apply locked_unlocks; exact H); try exact H.
-  destruct hs; [exact H | apply locked_unlocks; exact H].
-Qed.
-
-Lemma never_wedges st r hk :
-  tx_locked st = false -> tx_locked (fst (server_step st r hk)) = false.
-Proof. intros H. unfold server_step, server_step_v. cbn [fst]. apply handle_unlocked, H. Qed.
-
-(** app_set / notify never touch the transmit lock of the current instance *)
-Lemma find_inst_id st id i : find_inst st id = Some i -> i_id i = id /\ (i_id (st_cur st) = id -> i = st_cur st).
-Proof.
-  unfold find_inst. destruct (i_id (st_cur st) =? id) eqn:E; intros H.
-  - inversion H; subst. apply N.eqb_eq in E. auto.
-  - apply find_some in H as [_ H]. apply N.eqb_eq in H. split; [exact H|]. apply N.eqb_neq in E. intros; contradiction.
-Qed.
-
-Lemma notify_via_lock st id o mk vh val :
-  tx_locked (r_state (notify_via st id o mk vh val)) = tx_locked st.
-Proof.
-  unfold notify_via. destruct (find_inst st id) as [i|] eqn:Hf; [|reflexivity].
-  destruct (find_inst_id _ _ _ Hf) as [Hid Hcur].
-  destruct (i_proc_locked i); [reflexivity|].
-  destruct o; try reflexivity; cbn [r_state raise];
-    unfold put_inst; cbn [with_proc i_id]; destruct (i_id (st_cur st) =? i_id i) eqn:E; try reflexivity;
-    apply N.eqb_eq in E; rewrite (Hcur (eq_trans E Hid)); reflexivity.
-Qed.
-
-Lemma app_set_lock st d val hk : tx_locked (r_state (app_set st d val hk)) = tx_locked st.
-Proof.
-  unfold app_set. destruct (lookup d (st_db st)) as [c|]; [|reflexivity].
-  destruct (a_kind c); try reflexivity.
-  repeat match goal with
-  | |- context [if ?x then _ else _] => destruct x
-  | |- context [match a_ncb c with _ => _ end] => destruct (a_ncb c)
-  | |- context [match a_icb c with _ => _ end] => destruct (a_icb c)
-  end; try reflexivity; rewrite notify_via_lock; reflexivity.
-Qed.
-
-Lemma step_unlocked st ev :
-  tx_locked st = false -> tx_locked (r_state (step V_fixed st ev)) = false.
-Proof.
-  intros H. destruct ev; cbn [step].
-  - destruct (st_connected st); [apply handle_unlocked, H | exact H].
-  - cbn. destruct (st_connected st); exact H.
-  - rewrite app_set_lock. exact H.
-  - cbn [r_state done]. unfold disconnect. destruct (st_connected st); [|exact H].
-    cbn [fx_disc_term V_fixed]. unfold tx_locked in *. cbn. exact H.
-  - cbn [r_state done]. unfold connect. destruct (st_connected st); [exact H|reflexivity].
-Qed.
-
-Lemma never_wedges_history evs : forall st,
-  tx_locked st = false -> tx_locked (run_state V_fixed st evs) = false.
-Proof.
-  induction evs as [|ev r IH]; intros st H; cbn [run_state]; [exact H|].
-  apply IH, step_unlocked, H.
-Qed.
-
-(** the probe request of the harness is answered in every unlocked, connected state *)
-Lemma probe_answered st :
-  tx_locked st = false ->
-  r_out (handle V_fixed st (Read 0) no_hooks) = [PError 10 0 1].
-Proof. intros H. cbn [handle]. unfold locked. rewrite H. cbn. reflexivity. Qed.
-
-(** * one_response *)
-
-Lemma locked_out v st body :
-  tx_locked st = false -> r_out (locked v st body) = r_out (body (with_lock st true)).
-Proof. intros H. unfold locked. rewrite H. destruct (r_exc _); reflexivity. Qed.
-
-Lemma hooks_behave_inv hk : hooks_behave hk = true ->
-  raises_other (h_read hk) = false /\ raises_other (h_write hk) = false /\ raises_other (h_written hk) = false
-  /\ raises_other (h_written2 hk) = false /\ raises_other (h_sub hk) = false /\ raises_other (h_unsub hk) = false.
-Proof.
-  unfold hooks_behave. intros H. apply negb_true_iff in H.
-  repeat (apply orb_false_iff in H; destruct H as [H ?]). repeat split; assumption.
-Qed.
-
-Lemma read_value_answer_len st op opa h o mk n ov :
-  raises_other o = false -> length (r_out (read_value_answer st op opa h o mk n ov)) = 1%nat.
-Proof. destruct o; cbn; intros; try reflexivity; discriminate. Qed.
-
-Lemma hook_error_len st op opa h o :
-  match o with HReturn | HOverride _ | HRaiseOther => False | _ => True end ->
-  length (r_out (hook_error st op opa h o)) = 1%nat.
-Proof. destruct o; cbn; intros; try reflexivity; contradiction. Qed.
-
-Lemma find_info_len st s e : length (r_out (h_find_info st s e)) = 1%nat.
-Proof. unfold h_find_info. break; reflexivity. Qed.
-
-Lemma fbtv_match_fixed st ty vr attrs : fbtv_match V_fixed st ty vr attrs <> None.
-Proof.
-  induction attrs as [|a r IH]; cbn [fbtv_match]; [discriminate|].
-  destruct (negb (bytes_eqb ty (a_type a))); [exact IH|].
-  destruct (fbtv_match V_fixed st ty vr r); [|contradiction].
-  cbn [fx_fbtv V_fixed]. destruct (a_kind a); discriminate.
-Qed.
-
-Lemma fbtv_len st s e ty vr : length (r_out (h_fbtv V_fixed st s e ty vr)) = 1%nat.
-Proof.
-  unfold h_fbtv. destruct ((s =? 0) || (e <? s)); [reflexivity|].
-  destruct (fbtv_match V_fixed st (uuid16 ty) vr (by_range s e (st_db st))) as [l|] eqn:E.
-  - destruct l; reflexivity.
-  - exfalso. exact (fbtv_match_fixed _ _ _ _ E).
-Qed.
-
-Lemma read_req_len st hk h :
-  raises_other (h_read hk) = false -> length (r_out (h_read_req V_fixed st hk h)) = 1%nat.
-Proof.
-  intros Hr. unfold h_read_req. cbn [fx_read_default V_fixed].
-  destruct (h =? 0); [reflexivity|].
-  destruct (lookup h (st_db st)) as [a|]; [|reflexivity].
-  destruct (a_kind a); try reflexivity.
-  destruct (read_denied st h); [reflexivity|apply read_value_answer_len; exact Hr].
-Qed.
-
-Lemma read_blob_len st hk h off :
-  raises_other (h_read hk) = false -> length (r_out (h_read_blob V_fixed st hk h off)) = 1%nat.
-Proof.
-  intros Hr. unfold h_read_blob. cbn [fx_blob V_fixed].
-  destruct (h =? 0); [reflexivity|].
-  destruct (lookup h (st_db st)) as [a|]; [|reflexivity].
-  assert (Hb : forall a', length (r_out (blob_value_branch st hk h off a')) = 1%nat).
-  { intros. unfold blob_value_branch. apply read_value_answer_len, Hr. }
-  destruct (a_kind a);
-    repeat match goal with
-    | |- context [read_denied st h] => destruct (read_denied st h)
-    | |- context [off <? ?x] => destruct (off <? x)
-    | |- context [off =? ?x] => destruct (off =? x)
-    end; try reflexivity; try apply Hb.
-Qed.
-
-Lemma cccd_effects_out st hk h newv record out : r_out (cccd_effects st hk h newv record out) = out.
-Proof. unfold cccd_effects. break; reflexivity. Qed.
-
-Lemma write_value_len st hk op opa h val rsp :
-  is_return (h_written hk) = true -> raises_other (h_write hk) = false ->
-  length (r_out (write_value st hk op opa h val rsp)) = length rsp
-  \/ length (r_out (write_value st hk op opa h val rsp)) = 1%nat.
-Proof.
-  intros Hw Hr. unfold write_value.
-  destruct (h_written hk); try discriminate.
-  destruct (h_write hk); cbn; try discriminate; auto.
-Qed.
-
-Lemma write_gen_len st hk is_cmd h val :
-  is_return (h_written hk) = true -> raises_other (h_write hk) = false ->
-  let n := length (r_out (h_write_gen V_fixed st hk is_cmd h val)) in
-  if is_cmd then (n <= 1)%nat else n = 1%nat.
-Proof.
-  intros Hw Hr. unfold h_write_gen. cbn [fx_write_default fx_sub_record V_fixed].
-  assert (Hrsp : length (if is_cmd then [] else [PWriteRsp]) = if is_cmd then 0%nat else 1%nat) by (destruct is_cmd; reflexivity).
-  destruct (h =? 0); [destruct is_cmd; cbn; lia|].
-  destruct (lookup h (st_db st)) as [a|]; [|destruct is_cmd; cbn; lia].
-  destruct (a_kind a); try (destruct is_cmd; cbn; lia).
-  - destruct (write_denied st h E_NOT_FOUND); [destruct is_cmd; cbn; lia|].
-    destruct (write_value_len st hk (if is_cmd then OP_WCMD else OP_WRITE) (if is_cmd then OP_WCMD else OP_READ) h val
-                (if is_cmd then [] else [PWriteRsp]) Hw Hr) as [E|E]; cbv zeta; rewrite E; rewrite ?Hrsp; destruct is_cmd; lia.
-  - match goal with |- context [if ?b then cccd_effects _ _ _ _ _ _ else _] => destruct b end.
-    + cbv zeta. rewrite cccd_effects_out, Hrsp. destruct is_cmd; lia.
-    + destruct is_cmd; cbn; lia.
-Qed.
-
-Lemma prepare_len st h off val : length (r_out (h_prepare st h off val)) = 1%nat.
-Proof. unfold h_prepare. destruct (lookup h (st_db st)); reflexivity. Qed.
-
-Lemma exec_loop_len q : forall st r, exec_loop V_fixed st q = inl r -> length (r_out r) = 1%nat.
-Proof.
-  induction q as [|[h ws] q IH]; intros st r; cbn [exec_loop]; [discriminate|].
-  cbn [fx_exec_perm V_fixed].
-  destruct (lookup h (st_db st)) as [a|]; [|intros E; inversion E; reflexivity].
-  destruct (a_kind a); try apply IH.
-  destruct (write_denied st h E_INVALID_HANDLE); [intros E; inversion E; reflexivity|].
-  destruct (apply_writes h ws (st_db st)) as [db' ok]. destruct ok; [apply IH|intros E; inversion E; reflexivity].
-Qed.
-
-Lemma execute_len st f : length (r_out (h_execute V_fixed st f)) = 1%nat.
-Proof.
-  unfold h_execute. destruct (f =? 0); [reflexivity|]. destruct (f =? 1); [|reflexivity].
-  destruct (exec_loop V_fixed st (i_queues (st_cur st))) eqn:E; [eapply exec_loop_len; eauto|reflexivity].
-Qed.
-
-Lemma read_by_type_len st s e ty : length (r_out (h_read_by_type st s e ty)) = 1%nat.
-Proof. unfold h_read_by_type. break; reflexivity. Qed.
-
-Lemma group_items_fixed usz attrs : group_items V_fixed usz attrs <> None.
-Proof.
-  induction attrs as [|a r IH]; cbn [group_items]; [discriminate|].
-  cbn [fx_group_desc V_fixed].
-  destruct (a_kind a); (destruct (nlen (obj_uuid a) =? usz); [|discriminate]);
-    destruct (group_items V_fixed usz r); try discriminate; contradiction.
-Qed.
-
-Lemma read_by_group_len st s e ty : length (r_out (h_read_by_group V_fixed st s e ty)) = 1%nat.
-Proof.
-  unfold h_read_by_group. destruct ((s =? 0) || (e <? s)); [reflexivity|].
-  destruct (negb (existsb (N.eqb ty) SUPPORTED_GROUPS)); [reflexivity|].
-  destruct (by_type (uuid16 ty) s e (st_db st)) as [|a0 r]; [reflexivity|].
-  cbv zeta.
-  match goal with |- context [group_items V_fixed ?u ?l] => destruct (group_items V_fixed u l) eqn:E end;
-    [reflexivity | exfalso; exact (group_items_fixed _ _ E)].
-Qed.
-
-Lemma mtu_len st m : length (r_out (h_mtu st m)) = 1%nat.
-Proof. reflexivity. Qed.
-
-(** exactly one PDU per request, at most one per command, one confirmation per indication *)
-Lemma one_response st r hk :
-  tx_locked st = false -> wf_request (mtu_of st) r = true ->
-  hooks_behave hk = true -> is_return (h_written hk) = true ->
-  let out := snd (server_step st r hk) in
-  (is_request r = true -> length out = 1%nat)
-  /\ (is_command r = true -> (length out <= 1)%nat)
-  /\ (is_indication r = true -> out = [PConfirmation]).
-Proof.
-  intros Hl Hwf Hb Hw. apply hooks_behave_inv in Hb as (Hr & Hwr & _).
-  unfold server_step, server_step_v. cbn [snd].
-  pose proof (fun st' h v => write_gen_len st' hk false h v Hw Hwr) as Wreq.
-  pose proof (fun st' h v => write_gen_len st' hk true h v Hw Hwr) as Wcmd.
-  cbv zeta in Wreq, Wcmd.
-  destruct r; cbn [handle is_request is_command is_indication fx_rbt128 V_fixed];
-    rewrite ?(locked_out _ _ _ Hl);
-    (split; [intros Hk | split; intros Hk]); try discriminate Hk;
-    try first [ apply mtu_len | apply find_info_len | apply fbtv_len | apply read_by_type_len
-              | apply read_req_len, Hr | apply read_blob_len, Hr | apply read_by_group_len
-              | apply Wreq | apply Wcmd | apply prepare_len | apply execute_len | reflexivity
-              | (cbn; lia) ].
-  destruct hs as [|h0 hs]; [|rewrite (locked_out _ _ _ Hl); reflexivity].
-  unfold wf_request in Hwf. cbn [forallb negb andb] in Hwf. rewrite andb_false_r in Hwf. discriminate.
-Qed.
-
-(** * fits_mtu *)
+(** * Basic facts *)
 
 Lemma nlen_app (a b : bytes) : nlen (a ++ b) = nlen a + nlen b.
 Proof. unfold nlen. rewrite app_length. lia. Qed.
+
 Lemma nlen_cons (x : N) (a : bytes) : nlen (x :: a) = 1 + nlen a.
 Proof. unfold nlen. cbn [length]. lia. Qed.
+
 Lemma nlen_nil : nlen [] = 0.
 Proof. reflexivity. Qed.
+
 Lemma nlen_le16 n : nlen (le16 n) = 2.
 Proof. reflexivity. Qed.
+
 Lemma nlen_trunc n v : nlen (trunc n v) <= n.
 Proof. unfold nlen, trunc. pose proof (firstn_le_length (N.to_nat n) v). rewrite firstn_length. lia. Qed.
+
 Lemma nlen_bslice off n v : nlen (bslice off n v) <= n.
 Proof. unfold nlen, bslice. rewrite firstn_length. lia. Qed.
 
@@ -292,8 +43,10 @@ Ltac nl := repeat (rewrite ?nlen_app, ?nlen_cons, ?nlen_nil, ?nlen_le16).
 
 Lemma size_error a b c : att_size (PError a b c) = 5.
 Proof. unfold att_size, encode. nl. lia. Qed.
+
 Lemma size_read v : att_size (PReadRsp v) = 1 + nlen v.
 Proof. unfold att_size, encode. nl. lia. Qed.
+
 Lemma size_blob v : att_size (PReadBlobRsp v) = 1 + nlen v.
 Proof. unfold att_size, encode. nl. lia. Qed.
 
@@ -344,7 +97,6 @@ Proof. intros Hf Hl. apply lookup_in in Hl as [Hin _]. rewrite forallb_forall in
 Lemma uuid_len_cases b : uuid_len_ok b = true -> nlen b = 2 \/ nlen b = 16.
 Proof. unfold uuid_len_ok. intros H. apply orb_true_iff in H as [H|H]; apply N.eqb_eq in H; auto. Qed.
 
-(** what [wf_attr] gives for the kinds that matter *)
 Lemma wf_attr_type a : wf_attr a = true -> uuid_len_ok (a_type a) = true.
 Proof. unfold wf_attr. intros H. repeat (apply andb_true_iff in H as [H ?]). exact H. Qed.
 
@@ -356,12 +108,948 @@ Proof.
   all: match goal with H : _ && uuid_len_ok _ = true |- _ => apply andb_true_iff in H as [_ H]; exact H | _ => idtac end.
 Qed.
 
+(** * Static part of the database, well-formedness is preserved *)
+
+Definition static_eq (a b : attr) : Prop :=
+  a_handle a = a_handle b /\ a_kind a = a_kind b /\ a_type a = a_type b /\ a_uuid a = a_uuid b
+  /\ a_end a = a_end b /\ a_props a = a_props b /\ a_sec a = a_sec b
+  /\ a_istart a = a_istart b /\ a_iend a = a_iend b.
+Definition attr_ext (a b : attr) : Prop := static_eq a b /\ (wf_attr a = true -> wf_attr b = true).
+Definition db_ext (d1 d2 : db_t) : Prop := Forall2 attr_ext d1 d2.
+
+Lemma static_eq_refl a : static_eq a a.
+Proof. unfold static_eq. tauto. Qed.
+Lemma static_eq_trans a b c : static_eq a b -> static_eq b c -> static_eq a c.
+Proof. unfold static_eq. intuition congruence. Qed.
+Lemma attr_ext_refl a : attr_ext a a.
+Proof. split; [apply static_eq_refl|auto]. Qed.
+Lemma attr_ext_trans a b c : attr_ext a b -> attr_ext b c -> attr_ext a c.
+Proof. intros [S1 W1] [S2 W2]. split; [eapply static_eq_trans; eauto|auto]. Qed.
+Lemma db_ext_refl d : db_ext d d.
+Proof. induction d; constructor; [apply attr_ext_refl|assumption]. Qed.
+Lemma db_ext_trans d1 d2 d3 : db_ext d1 d2 -> db_ext d2 d3 -> db_ext d1 d3.
+Proof.
+  intros H. revert d3. induction H; intros d3 H3; inversion H3; subst; constructor.
+  - eapply attr_ext_trans; eauto.
+  - apply IHForall2. assumption.
+Qed.
+
+Lemma db_ext_sorted d1 d2 : db_ext d1 d2 -> forall lo, sorted_from lo d1 = sorted_from lo d2.
+Proof.
+  induction 1 as [|a b r1 r2 [S _] _ IH]; intros lo; cbn [sorted_from]; [reflexivity|].
+  destruct S as (Hh & _). rewrite Hh, IH. reflexivity.
+Qed.
+
+Definition pend_eq (p q : option attr) : Prop :=
+  match p, q with None, None => True | Some a, Some b => static_eq a b | _, _ => False end.
+
+Lemma db_ext_struct d1 d2 : db_ext d1 d2 -> forall p q b c, pend_eq p q ->
+  wf_struct d1 p b c = wf_struct d2 q b c.
+Proof.
+  induction 1 as [|a a' r1 r2 [S _] _ IH]; intros p q b c Hp; cbn [wf_struct].
+  - destruct p, q; cbn in Hp; try contradiction; reflexivity.
+  - pose proof S as (Hh & Hk & Ht & Hu & _).
+    destruct p as [d|], q as [d'|]; cbn in Hp; try contradiction.
+    + destruct Hp as (Hdh & _ & _ & Hdu & _). rewrite Hk, Hh, Ht, Hdh, Hdu.
+      rewrite (IH None None true false I). reflexivity.
+    + rewrite Hk. destruct (a_kind a'); try reflexivity;
+        try (rewrite (IH None None b c I); reflexivity);
+        try (rewrite (IH None None b true I); reflexivity);
+        try (rewrite (IH None None false false I); reflexivity).
+      apply IH. exact S.
+Qed.
+
+Lemma db_ext_attrs d1 d2 : db_ext d1 d2 -> forallb wf_attr d1 = true -> forallb wf_attr d2 = true.
+Proof.
+  induction 1 as [|a b r1 r2 [_ W] _ IH]; cbn [forallb]; [auto|].
+  intros H. apply andb_true_iff in H as [H1 H2]. apply andb_true_iff. auto.
+Qed.
+
+Lemma db_ext_wf d1 d2 : db_ext d1 d2 -> wf_db d1 = true -> wf_db d2 = true.
+Proof.
+  intros E. unfold wf_db. intros H. apply andb_true_iff in H as [H H3]. apply andb_true_iff in H as [H1 H2].
+  rewrite <- (db_ext_sorted _ _ E), H1, (db_ext_attrs _ _ E H2), <- (db_ext_struct _ _ E None None false false I), H3.
+  reflexivity.
+Qed.
+
+Lemma lookup_ext d1 d2 h : db_ext d1 d2 ->
+  match lookup h d1, lookup h d2 with
+  | Some a, Some b => attr_ext a b
+  | None, None => True
+  | _, _ => False
+  end.
+Proof.
+  induction 1 as [|a b r1 r2 E _ IH]; cbn [lookup]; [exact I|].
+  destruct E as [S W]. pose proof S as (Hh & _). rewrite <- Hh.
+  destruct (a_handle a =? h); [split; assumption|exact IH].
+Qed.
+
+Lemma update_ext h f db :
+  (forall a, lookup h db = Some a -> attr_ext a (f a)) -> db_ext db (update h f db).
+Proof.
+  induction db as [|x r IH]; intros H; cbn [update]; [constructor|].
+  cbn [lookup] in H. destruct (a_handle x =? h).
+  - constructor; [apply H; reflexivity|apply db_ext_refl].
+  - constructor; [apply attr_ext_refl|apply IH, H].
+Qed.
+
+Ltac andb_destr H := repeat (let H' := fresh H in apply andb_true_iff in H as [H H']).
+Ltac andb_split := repeat (apply andb_true_iff; split).
+
+Lemma set_value_ext a x :
+  wf_bytes x = true -> (a_kind a = KCccd -> nlen x = 2) -> attr_ext a (set_value a x).
+Proof.
+  intros Hx Hc. split; [unfold static_eq; cbn; tauto|].
+  unfold wf_attr. cbn [set_value a_handle a_kind a_type a_uuid a_value a_end a_props a_sec a_istart a_iend].
+  intros H. andb_destr H.
+  destruct (a_kind a) eqn:K; andb_destr H0; andb_split; try assumption.
+  apply N.eqb_eq. apply Hc. reflexivity.
+Qed.
+
+Lemma set_cbs_ext a n i : attr_ext a (set_cbs a n i).
+Proof. split; [unfold static_eq; cbn; tauto|]. unfold wf_attr. cbn. auto. Qed.
+
+Lemma queue_ok_ext d1 d2 q : db_ext d1 d2 ->
+  forallb (queue_entry_ok d1) q = true -> forallb (queue_entry_ok d2) q = true.
+Proof.
+  intros E H. rewrite forallb_forall in *. intros x Hin. specialize (H x Hin).
+  unfold queue_entry_ok in *. apply andb_true_iff in H as [H1 H2]. rewrite H2, andb_true_r.
+  pose proof (lookup_ext _ _ (fst x) E) as L.
+  destruct (lookup (fst x) d1); [|discriminate]. destruct (lookup (fst x) d2); [reflexivity|contradiction].
+Qed.
+
+Lemma wf_state_inv st : wf_state st = true ->
+  wf_db (st_db st) = true /\ 23 <= mtu_of st /\ mtu_of st <= 65535 /\ queue_ok st = true.
+Proof.
+  unfold wf_state. intros H. apply andb_true_iff in H as [H H4]. apply andb_true_iff in H as [H H3].
+  apply andb_true_iff in H as [H1 H2]. apply N.leb_le in H2, H3. auto.
+Qed.
+
+Lemma wf_state_intro st : wf_db (st_db st) = true -> 23 <= mtu_of st -> mtu_of st <= 65535 ->
+  queue_ok st = true -> wf_state st = true.
+Proof.
+  intros H1 H2 H3 H4. unfold wf_state. rewrite H1, H4. apply N.leb_le in H2, H3. rewrite H2, H3. reflexivity.
+Qed.
+
+Lemma wf_state_with_db st db' : wf_state st = true -> db_ext (st_db st) db' -> wf_state (with_db st db') = true.
+Proof.
+  intros H E. apply wf_state_inv in H as (H1 & H2 & H3 & H4).
+  apply wf_state_intro; try assumption.
+  - eapply db_ext_wf; eauto.
+  - unfold queue_ok in *. cbn. eapply queue_ok_ext; eauto.
+Qed.
+
+Lemma wf_state_with_lock st b : wf_state st = true -> wf_state (with_lock st b) = true.
+Proof. intros H. exact H. Qed.
+Lemma wf_state_with_lock_inv st b : wf_state (with_lock st b) = true -> wf_state st = true.
+Proof. intros H. exact H. Qed.
+Lemma wf_state_with_subs st l : wf_state st = true -> wf_state (with_subs st l) = true.
+Proof. intros H. exact H. Qed.
+
+Lemma wf_state_with_queues st q : wf_state st = true ->
+  forallb (queue_entry_ok (st_db st)) q = true -> wf_state (with_queues st q) = true.
+Proof.
+  intros H Hq. apply wf_state_inv in H as (H1 & H2 & H3 & H4). apply wf_state_intro; assumption.
+Qed.
+
+Lemma hook_error_state st op opa h o : r_state (hook_error st op opa h o) = st.
+Proof. destruct o as [|x| | | | |g1 g2 g3|]; reflexivity. Qed.
+
+Lemma wf_outcome_override o x : wf_outcome o = true -> o = HOverride x -> wf_bytes x = true.
+Proof. intros H ->. exact H. Qed.
+
+Lemma wf_hooks_inv hk : wf_hooks hk = true ->
+  wf_outcome (h_read hk) = true /\ wf_outcome (h_write hk) = true /\ wf_outcome (h_written hk) = true
+  /\ wf_outcome (h_written2 hk) = true /\ wf_acts (h_acts hk) = true.
+Proof.
+  unfold wf_hooks. intros H. repeat (apply andb_true_iff in H as [H ?]). auto.
+Qed.
+
+Lemma wf_acts_inv a : wf_acts a = true ->
+  wf_act (ha_read a) = true /\ wf_act (ha_write a) = true /\ wf_act (ha_written a) = true
+  /\ wf_act (ha_written2 a) = true /\ wf_act (ha_sub a) = true /\ wf_act (ha_unsub a) = true.
+Proof. unfold wf_acts. intros H. repeat (apply andb_true_iff in H as [H ?]). repeat split; assumption. Qed.
+
+Lemma store_value_wf st h a x :
+  wf_state st = true -> lookup h (st_db st) = Some a -> a_kind a <> KCccd -> wf_bytes x = true ->
+  wf_state (with_db st (update h (fun a => set_value a x) (st_db st))) = true.
+Proof.
+  intros Hwf Hl Hk Hx. apply wf_state_with_db; [exact Hwf|].
+  apply update_ext. intros a' Ha'. rewrite Hl in Ha'. inversion Ha'; subst.
+  apply set_value_ext; [exact Hx|]. intros K. contradiction.
+Qed.
+
+Lemma wf_bytes_skipn n l : wf_bytes l = true -> wf_bytes (skipn n l) = true.
+Proof.
+  revert l. induction n as [|n IH]; intros l H; [exact H|]. destruct l as [|x r]; [reflexivity|].
+  cbn [skipn]. apply IH. cbn in H. apply andb_true_iff in H. tauto.
+Qed.
+
+Lemma wf_bytes_firstn n l : wf_bytes l = true -> wf_bytes (firstn n l) = true.
+Proof.
+  revert l. induction n as [|n IH]; intros l H; [reflexivity|]. destruct l as [|x r]; [reflexivity|].
+  cbn in H. apply andb_true_iff in H as [H1 H2]. cbn. rewrite H1. apply IH, H2.
+Qed.
+
+Lemma wf_attr_value a : wf_attr a = true -> wf_bytes (a_value a) = true /\ (a_kind a = KCccd -> nlen (a_value a) = 2).
+Proof.
+  unfold wf_attr. intros H. apply andb_true_iff in H as [H K]. repeat (apply andb_true_iff in H as [H ?]).
+  split; [assumption|]. intros E. rewrite E in K. apply andb_true_iff in K as [_ K]. apply N.eqb_eq, K.
+Qed.
+
+Lemma wf_state_attrs st : wf_state st = true -> forallb wf_attr (st_db st) = true.
+Proof.
+  intros H. apply wf_state_inv in H as (H & _). unfold wf_db in H.
+  apply andb_true_iff in H as [H _]. apply andb_true_iff in H as [_ H]. exact H.
+Qed.
+
+(** * Characteristic updates made by the application or by a hook *)
+
+(** what such an update never changes *)
+Record frame (st st' : state) : Prop := mkFrame {
+  fr_lock : tx_locked st' = tx_locked st;
+  fr_mtu : mtu_of st' = mtu_of st;
+  fr_mtus : inst_mtus st' = inst_mtus st;
+  fr_conn : st_connected st' = st_connected st;
+  fr_enc : st_enc st' = st_enc st;
+  fr_auth : st_auth st' = st_auth st;
+  fr_queues : i_queues (st_cur st') = i_queues (st_cur st);
+  fr_subs : i_subscribed (st_cur st') = i_subscribed (st_cur st);
+  fr_id : i_id (st_cur st') = i_id (st_cur st) }.
+
+Lemma frame_refl st : frame st st.
+Proof. constructor; reflexivity. Qed.
+Lemma frame_trans a b c : frame a b -> frame b c -> frame a c.
+Proof. intros [] []. constructor; congruence. Qed.
+Lemma frame_with_db st db : frame st (with_db st db).
+Proof. constructor; reflexivity. Qed.
+
+Lemma set_proc_db st id b : st_db (set_proc st id b) = st_db st.
+Proof. unfold set_proc. destruct (_ =? _); reflexivity. Qed.
+
+Lemma set_proc_frame st id b : frame st (set_proc st id b).
+Proof.
+  unfold set_proc. destruct (i_id (st_cur st) =? id); constructor; try reflexivity.
+  unfold inst_mtus. cbn [st_cur st_dead map]. f_equal. rewrite map_map. apply map_ext.
+  intros j. destruct (i_id j =? id); reflexivity.
+Qed.
+
+Lemma wf_state_frame st st' : frame st st' -> st_db st' = st_db st -> wf_state st = true -> wf_state st' = true.
+Proof.
+  intros F Ed H. unfold wf_state, queue_ok in *. rewrite Ed, (fr_mtu _ _ F), (fr_queues _ _ F). exact H.
+Qed.
+
+Lemma find_inst_id st id i : find_inst st id = Some i -> i_id i = id /\ (i_id (st_cur st) = id -> i = st_cur st).
+Proof.
+  unfold find_inst. destruct (i_id (st_cur st) =? id) eqn:E; intros H.
+  - inversion H; subst. apply N.eqb_eq in E. auto.
+  - apply find_some in H as [_ H]. apply N.eqb_eq in H. split; [exact H|]. apply N.eqb_neq in E. intros; contradiction.
+Qed.
+
+Lemma find_inst_in st id i : find_inst st id = Some i -> In i (st_cur st :: st_dead st).
+Proof.
+  unfold find_inst. destruct (i_id (st_cur st) =? id); intros H.
+  - inversion H. left. reflexivity.
+  - apply find_some in H as [H _]. right. exact H.
+Qed.
+
+Lemma proc_free_in st i : proc_free st = true -> In i (st_cur st :: st_dead st) -> i_proc_locked i = false.
+Proof.
+  unfold proc_free. intros H Hin. apply andb_true_iff in H as [H1 H2].
+  destruct Hin as [<-|Hin]; [apply negb_true_iff, H1|].
+  rewrite forallb_forall in H2. apply negb_true_iff, H2, Hin.
+Qed.
+
+(** PDUs sent from inside an update: never a response, within the MTU of the sending instance *)
+Definition act_out_ok (st : state) (pd : list att_pdu) : Prop :=
+  Forall (fun p => is_rsp p = false /\ pdu_fits st p = true) pd.
+
+Lemma act_out_ok_nil st : act_out_ok st [].
+Proof. constructor. Qed.
+
+(** same MTUs *)
+Definition mframe (st st' : state) : Prop := mtu_of st' = mtu_of st /\ inst_mtus st' = inst_mtus st.
+Lemma frame_m st st' : frame st st' -> mframe st st'.
+Proof. intros F. split; [apply (fr_mtu _ _ F)|apply (fr_mtus _ _ F)]. Qed.
+Lemma mframe_refl st : mframe st st.
+Proof. split; reflexivity. Qed.
+Lemma mframe_trans a b c : mframe a b -> mframe b c -> mframe a c.
+Proof. intros [] []. split; congruence. Qed.
+
+Lemma act_out_ok_mframe st st' pd : mframe st st' -> act_out_ok st' pd -> act_out_ok st pd.
+Proof.
+  intros [F1 F2] H. unfold act_out_ok in *. eapply Forall_impl; [|exact H]. intros p [H1 H2]. split; [exact H1|].
+  unfold pdu_fits in *. rewrite <- F1, <- F2. exact H2.
+Qed.
+Lemma act_out_ok_frame st st' pd : frame st st' -> act_out_ok st' pd -> act_out_ok st pd.
+Proof. intros F. apply act_out_ok_mframe, frame_m, F. Qed.
+
+Lemma notify_via_frame st id o mk vh val : frame st (r_state (notify_via st id o mk vh val)).
+Proof.
+  unfold notify_via. destruct (find_inst st id) as [i|]; [|apply frame_refl].
+  destruct (i_proc_locked i); [apply frame_refl|].
+  destruct o as [|x| | | | |g1 g2 g3|]; try apply frame_refl; apply set_proc_frame.
+Qed.
+
+Lemma notify_via_db st id o mk vh val : st_db (r_state (notify_via st id o mk vh val)) = st_db st.
+Proof.
+  unfold notify_via. destruct (find_inst st id) as [i|]; [|reflexivity].
+  destruct (i_proc_locked i); [reflexivity|].
+  destruct o as [|x| | | | |g1 g2 g3|]; try reflexivity; apply set_proc_db.
+Qed.
+
+Lemma notify_via_out st id o (mk : N -> bytes -> att_pdu) vh val :
+  (forall h x, is_rsp (mk h x) = false) -> (forall h x, att_size (mk h x) = 3 + nlen x) ->
+  act_out_ok st (r_out (notify_via st id o mk vh val)).
+Proof.
+  intros Hr Hs. unfold notify_via. destruct (find_inst st id) as [i|] eqn:Hf; [|constructor].
+  destruct (i_proc_locked i); [constructor|].
+  assert (Hin : In (i_mtu i) (inst_mtus st)) by (unfold inst_mtus; apply in_map, (find_inst_in _ _ _ Hf)).
+  assert (Hfit : forall x, pdu_fits st (mk vh (trunc (i_mtu i - 3) x)) = true).
+  { intros x. unfold pdu_fits. rewrite Hr. apply orb_true_iff. right. cbn [negb andb].
+    apply existsb_exists. exists (i_mtu i). split; [exact Hin|].
+    rewrite Hs. pose proof (nlen_trunc (i_mtu i - 3) x). apply N.leb_le. lia. }
+  destruct o as [|x| | | | |g1 g2 g3|]; cbn [r_out done raise]; try constructor; try constructor; auto.
+Qed.
+
+Lemma notify_via_exc st id o mk vh val :
+  match r_exc (notify_via st id o mk vh val) with
+  | None => True
+  | Some ExDeadlock => proc_free st = false
+  | Some (ExHook o') => o' = o /\ returns_or_overrides o = false
+  | Some _ => False
+  end.
+Proof.
+  unfold notify_via. destruct (find_inst st id) as [i|] eqn:Hf; [|exact I].
+  destruct (i_proc_locked i) eqn:Hp.
+  - cbn. destruct (proc_free st) eqn:Hpf; [|reflexivity].
+    rewrite (proc_free_in st i Hpf (find_inst_in _ _ _ Hf)) in Hp. discriminate.
+  - destruct o as [|x| | | | |g1 g2 g3|]; cbn; auto.
+Qed.
+
+Lemma notify_via_quiet st id o mk vh val :
+  proc_free st = true -> returns_or_overrides o = true ->
+  r_exc (notify_via st id o mk vh val) = None /\ r_state (notify_via st id o mk vh val) = st.
+Proof.
+  intros Hpf Ho. unfold notify_via. destruct (find_inst st id) as [i|] eqn:Hf; [|auto].
+  rewrite (proc_free_in st i Hpf (find_inst_in _ _ _ Hf)).
+  destruct o as [|x| | | | |g1 g2 g3|]; try discriminate; auto.
+Qed.
+
+(** shape of [Characteristic.value = v] *)
+Definition app_db (st : state) (d : N) (v : bytes) (st1 : state) : Prop :=
+  st1 = st \/ exists a, lookup (d + 1) (st_db st) = Some a /\ a_kind a = KValue
+                        /\ st1 = with_db st (update (d + 1) (fun x => set_value x v) (st_db st)).
+
+Inductive app_shape (st : state) (d : N) (v : bytes) (hk : hook_oracle) : hres -> Prop :=
+| AS_none st1 : app_db st d v st1 -> app_shape st d v hk (done st1 [])
+| AS_notif st1 id : app_db st d v st1 -> app_shape st d v hk (notify_via st1 id (h_notif hk) PNotification (d + 1) v)
+| AS_indic st1 id : app_db st d v st1 -> app_shape st d v hk (notify_via st1 id (h_indic hk) PIndication (d + 1) v).
+
+Lemma app_set_shape st d v hk : app_shape st d v hk (app_set st d v hk).
+Proof.
+  unfold app_set. destruct (lookup d (st_db st)) as [c|]; [|apply AS_none; left; reflexivity].
+  destruct (a_kind c); try (apply AS_none; left; reflexivity).
+  assert (Hdb : app_db st d v (with_db st (match lookup (d + 1) (st_db st) with
+                        | Some x => if kind_eqb (a_kind x) KValue
+                                    then update (d + 1) (fun a => set_value a v) (st_db st) else st_db st
+                        | None => st_db st end))).
+  { destruct (lookup (d + 1) (st_db st)) as [x|] eqn:E; [|left; destruct st; reflexivity].
+    destruct (kind_eqb (a_kind x) KValue) eqn:K; [|left; destruct st; reflexivity].
+    right. exists x. split; [exact E|]. split; [destruct (a_kind x); try discriminate; reflexivity|reflexivity]. }
+  cbv zeta.
+  repeat match goal with
+  | |- context [if ?x then _ else _] => destruct x
+  | |- context [match a_ncb c with _ => _ end] => destruct (a_ncb c)
+  | |- context [match a_icb c with _ => _ end] => destruct (a_icb c)
+  end; first [apply AS_none, Hdb | apply AS_notif, Hdb | apply AS_indic, Hdb].
+Qed.
+
+Lemma app_db_frame st d v st1 : app_db st d v st1 -> frame st st1.
+Proof. intros [->|(a & _ & _ & ->)]; [apply frame_refl|apply frame_with_db]. Qed.
+
+Lemma app_db_wf st d v st1 : app_db st d v st1 -> wf_state st = true -> wf_bytes v = true -> wf_state st1 = true.
+Proof.
+  intros [->|(a & Ha & Hk & ->)] Hwf Hv; [exact Hwf|].
+  apply (store_value_wf st (d + 1) a v Hwf Ha); [rewrite Hk; discriminate|exact Hv].
+Qed.
+
+Lemma app_db_proc st d v st1 : app_db st d v st1 -> proc_free st1 = proc_free st.
+Proof. intros [->|(a & _ & _ & ->)]; reflexivity. Qed.
+
+Lemma size_notif h x : att_size (PNotification h x) = 3 + nlen x.
+Proof. unfold att_size, encode. nl. lia. Qed.
+Lemma size_indic h x : att_size (PIndication h x) = 3 + nlen x.
+Proof. unfold att_size, encode. nl. lia. Qed.
+
+Lemma app_set_frame st d v hk : frame st (r_state (app_set st d v hk)).
+Proof.
+  destruct (app_set_shape st d v hk) as [st1 H|st1 id H|st1 id H]; cbn [r_state done];
+    try (eapply frame_trans; [apply (app_db_frame _ _ _ _ H)|apply notify_via_frame]).
+  apply (app_db_frame _ _ _ _ H).
+Qed.
+
+Lemma app_set_out st d v hk : act_out_ok st (r_out (app_set st d v hk)).
+Proof.
+  destruct (app_set_shape st d v hk) as [st1 H|st1 id H|st1 id H]; cbn [r_out done]; [constructor| |];
+    apply (act_out_ok_frame st st1 _ (app_db_frame _ _ _ _ H)); apply notify_via_out; auto using size_notif, size_indic.
+Qed.
+
+Lemma app_set_wf st d v hk : wf_state st = true -> wf_bytes v = true -> wf_state (r_state (app_set st d v hk)) = true.
+Proof.
+  intros Hwf Hv.
+  destruct (app_set_shape st d v hk) as [st1 H|st1 id H|st1 id H]; cbn [r_state done];
+    pose proof (app_db_wf _ _ _ _ H Hwf Hv) as W; [exact W| |];
+    (eapply wf_state_frame; [apply notify_via_frame|apply notify_via_db|exact W]).
+Qed.
+
+Lemma app_set_exc st d v hk :
+  match r_exc (app_set st d v hk) with
+  | None => True
+  | Some ExDeadlock => proc_free st = false
+  | Some (ExHook o') => returns_or_overrides o' = false /\ (o' = h_notif hk \/ o' = h_indic hk)
+  | Some _ => False
+  end.
+Proof.
+  destruct (app_set_shape st d v hk) as [st1 H|st1 id H|st1 id H]; [exact I| |];
+    match goal with |- context [notify_via ?s ?i ?o ?m ?h ?x] => pose proof (notify_via_exc s i o m h x) as E;
+      destruct (r_exc (notify_via s i o m h x)) as [[]|] end; try exact I; try contradiction;
+    try (rewrite <- (app_db_proc _ _ _ _ H); exact E); destruct E as [-> E]; auto.
+Qed.
+
+Lemma app_set_quiet st d v hk :
+  proc_free st = true -> notif_hooks_return hk = true ->
+  r_exc (app_set st d v hk) = None /\ proc_free (r_state (app_set st d v hk)) = true.
+Proof.
+  intros Hpf Hq. unfold notif_hooks_return in Hq. apply andb_true_iff in Hq as [Hn Hi].
+  destruct (app_set_shape st d v hk) as [st1 H|st1 id H|st1 id H]; cbn [r_exc r_state done];
+    pose proof (app_db_proc _ _ _ _ H) as Ep; rewrite <- Ep in Hpf; [auto| |].
+  - destruct (notify_via_quiet st1 id (h_notif hk) PNotification (d + 1) v Hpf Hn) as [-> ->]. auto.
+  - destruct (notify_via_quiet st1 id (h_indic hk) PIndication (d + 1) v Hpf Hi) as [-> ->]. auto.
+Qed.
+
+(** a hook call site *)
+Lemma hook_act_none st hk o : hook_act st hk None o = (st, [], HOut o).
+Proof. reflexivity. Qed.
+
+Lemma hook_act_spec st hk act o st1 pd res :
+  hook_act st hk act o = (st1, pd, res) ->
+  frame st st1 /\ act_out_ok st pd
+  /\ (wf_state st = true -> wf_act act = true -> wf_state st1 = true)
+  /\ (proc_free st = true -> notif_hooks_return hk = true -> res = HOut o /\ proc_free st1 = true)
+  /\ (act = None -> st1 = st /\ pd = [] /\ res = HOut o)
+  /\ (res = HHang -> proc_free st = false)
+  /\ (forall o', res = HOut o' -> o' = o \/ returns_or_overrides o' = false).
+Proof.
+  unfold hook_act. destruct act as [[d v]|].
+  2:{ intros E. inversion E; subst. repeat split; auto using frame_refl, act_out_ok_nil; try discriminate.
+      intros o' E'. inversion E'. auto. }
+  intros E. inversion E; subst. clear E.
+  pose proof (app_set_exc st d v hk) as Ex.
+  split; [apply app_set_frame|]. split; [apply app_set_out|].
+  split; [intros Hwf Hv; apply app_set_wf; assumption|].
+  split.
+  { intros Hpf Hq. destruct (app_set_quiet st d v hk Hpf Hq) as [E1 E2]. rewrite E1. auto. }
+  split; [discriminate|]. split.
+  - destruct (r_exc (app_set st d v hk)) as [[]|]; try discriminate; try contradiction; auto.
+  - intros o' E'. destruct (r_exc (app_set st d v hk)) as [[]|]; inversion E'; subst; auto. right. tauto.
+Qed.
+
+(** * The lock *)
+
+Lemma locked_out v st body :
+  tx_locked st = false -> r_out (locked v st body) = r_out (body (with_lock st true)).
+Proof. intros H. unfold locked. rewrite H. destruct (r_exc _) as [[]|]; reflexivity. Qed.
+
+(** a handler body that cannot block for ever: (1) when no hook updates a characteristic,
+    (2) when no procedure lock is held and the notification hooks return or override *)
+Definition safe (st : state) (hk : hook_oracle) (r : hres) : Prop :=
+  (h_acts hk = no_acts -> r_exc r <> Some ExDeadlock)
+  /\ (proc_free st = true -> notif_hooks_return hk = true ->
+      r_exc r <> Some ExDeadlock /\ proc_free (r_state r) = true).
+
+Lemma safe_simple st hk r :
+  r_exc r <> Some ExDeadlock -> proc_free (r_state r) = proc_free st -> safe st hk r.
+Proof. intros H1 H2. split; [auto|]. intros Hp _. split; [exact H1|congruence]. Qed.
+
+Lemma hook_error_exc st op opa h o : r_exc (hook_error st op opa h o) <> Some ExDeadlock.
+Proof. destruct o as [|x| | | | |g1 g2 g3|]; cbn; discriminate. Qed.
+
+(** the hook call sites *)
+Lemma hook_act_safe st hk act o st1 pd res :
+  hook_act st hk act o = (st1, pd, res) -> (h_acts hk = no_acts -> act = None) ->
+  (h_acts hk = no_acts -> res = HOut o /\ st1 = st)
+  /\ (proc_free st = true -> notif_hooks_return hk = true -> res = HOut o /\ proc_free st1 = true).
+Proof.
+  intros E Ha. destruct (hook_act_spec _ _ _ _ _ _ _ E) as (_ & _ & _ & Hq & Hn & _).
+  split; [|exact Hq]. intros H. destruct (Hn (Ha H)) as (-> & _ & ->). auto.
+Qed.
+
+Lemma post_hook_safe st hk act o out :
+  (h_acts hk = no_acts -> act = None) -> safe st hk (post_hook st hk act o out).
+Proof.
+  intros Ha. unfold post_hook. destruct (hook_act st hk act o) as [[st1 pd] res] eqn:E.
+  destruct (hook_act_safe _ _ _ _ _ _ _ E Ha) as [H1 H2]. split.
+  - intros H. destruct (H1 H) as [-> ->]. destruct o; cbn; discriminate.
+  - intros Hp Hq. destruct (H2 Hp Hq) as [-> Hp1]. destruct o; cbn; split; try discriminate; exact Hp1.
+Qed.
+
+Lemma read_value_answer_safe st hk op opa h mk normal : safe st hk (read_value_answer st hk op opa h mk normal).
+Proof.
+  unfold read_value_answer. destruct (hook_act st hk (ha_read (h_acts hk)) (h_read hk)) as [[st1 pd] res] eqn:E.
+  destruct (hook_act_safe _ _ _ _ _ _ _ E ltac:(intros ->; reflexivity)) as [H1 H2]. split.
+  - intros H. destruct (H1 H) as [-> ->]. destruct (h_read hk) as [|x| | | | |g1 g2 g3|]; cbn; discriminate.
+  - intros Hp Hq. destruct (H2 Hp Hq) as [-> Hp1].
+    destruct (h_read hk) as [|x| | | | |g1 g2 g3|]; cbn; split; try discriminate; exact Hp1.
+Qed.
+
+Lemma safe_prepend st hk pd r : safe st hk r -> safe st hk (prepend pd r).
+Proof. intros H. exact H. Qed.
+
+(** destruct the hook call of site [site] appearing in the goal *)
+Ltac dha site st' pd res E :=
+  match goal with |- context [hook_act ?s ?hk (site (h_acts ?hk)) ?o] =>
+    destruct (hook_act s hk (site (h_acts hk)) o) as [[st' pd] res] eqn:E end.
+
+Lemma write_value_safe st hk op opa h val rsp : safe st hk (write_value st hk op opa h val rsp).
+Proof.
+  unfold write_value. cbv zeta.
+  dha ha_write st1 pd1 res1 E1.
+  destruct (hook_act_safe _ _ _ _ _ _ _ E1 ltac:(intros ->; reflexivity)) as [A1 B1].
+  split.
+  - intros H. destruct (A1 H) as [-> ->].
+    destruct (h_write hk) as [|x| | | | |g1 g2 g3|]; try (cbn; discriminate).
+    + dha ha_written st3 pd3 res3 E3.
+      destruct (hook_act_safe _ _ _ _ _ _ _ E3 ltac:(intros ->; reflexivity)) as [A3 _].
+      destruct (A3 H) as [-> ->].
+      destruct (h_written hk) as [|y| | | | |k1 k2 k3|]; try (cbn; discriminate).
+      apply (proj1 (post_hook_safe _ hk (ha_written2 (h_acts hk)) _ _ ltac:(intros ->; reflexivity)) H).
+    + apply (proj1 (post_hook_safe _ hk (ha_written (h_acts hk)) _ _ ltac:(intros ->; reflexivity)) H).
+  - intros Hp Hq. destruct (B1 Hp Hq) as [-> Hp1].
+    destruct (h_write hk) as [|x| | | | |g1 g2 g3|]; try (cbn; split; [discriminate|exact Hp1]).
+    + dha ha_written st3 pd3 res3 E3.
+      destruct (hook_act_safe _ _ _ _ _ _ _ E3 ltac:(intros ->; reflexivity)) as [_ B3].
+      destruct (B3 Hp1 Hq) as [-> Hp3].
+      destruct (h_written hk) as [|y| | | | |k1 k2 k3|]; try (cbn; split; [discriminate|exact Hp3]).
+      apply (proj2 (post_hook_safe _ hk (ha_written2 (h_acts hk)) _ _ ltac:(intros ->; reflexivity))); [exact Hp3|exact Hq].
+    + apply (proj2 (post_hook_safe _ hk (ha_written (h_acts hk)) _ _ ltac:(intros ->; reflexivity))); [exact Hp1|exact Hq].
+Qed.
+
+Lemma safe_change st st' hk r : proc_free st' = proc_free st -> safe st' hk r -> safe st hk r.
+Proof. intros E [H1 H2]. split; [exact H1|]. rewrite <- E. exact H2. Qed.
+
+Lemma cccd_effects_safe st hk h newv record out : safe st hk (cccd_effects st hk h newv record out).
+Proof.
+  unfold cccd_effects.
+  destruct (un_le16_2 newv) as [cfg|]; [|apply safe_simple; [cbn; discriminate|reflexivity]].
+  destruct (owner_decl h (st_db st) None) as [d|]; [|apply safe_simple; [cbn; discriminate|reflexivity]].
+  destruct (cfg =? 1); [destruct record; (eapply safe_change; [|apply (post_hook_safe _ hk); intros ->; reflexivity]); reflexivity|].
+  destruct (cfg =? 2); [destruct record; (eapply safe_change; [|apply (post_hook_safe _ hk); intros ->; reflexivity]); reflexivity|].
+  destruct (cfg =? 0); [(eapply safe_change; [|apply (post_hook_safe _ hk); intros ->; reflexivity]); reflexivity|].
+  apply safe_simple; [cbn; discriminate|reflexivity].
+Qed.
+
+Ltac nodl := cbn; let E0 := fresh in (intro E0; discriminate E0).
+
+Lemma read_req_safe st hk h : safe st hk (h_read_req V_fixed st hk h).
+Proof.
+  unfold h_read_req. cbn [fx_read_default V_fixed].
+  destruct (h =? 0); [apply safe_simple; [nodl|reflexivity]|].
+  destruct (lookup h (st_db st)) as [a|]; [|apply safe_simple; [nodl|reflexivity]].
+  destruct (a_kind a); try (apply safe_simple; [nodl|reflexivity]).
+  destruct (read_denied st h); [apply safe_simple; [nodl|reflexivity]|apply read_value_answer_safe].
+Qed.
+
+Lemma read_blob_safe st hk h off : safe st hk (h_read_blob V_fixed st hk h off).
+Proof.
+  unfold h_read_blob, blob_value_branch. cbn [fx_blob V_fixed].
+  destruct (h =? 0); [apply safe_simple; [nodl|reflexivity]|].
+  destruct (lookup h (st_db st)) as [a|]; [|apply safe_simple; [nodl|reflexivity]].
+  destruct (a_kind a);
+    repeat match goal with
+    | |- context [read_denied st h] => destruct (read_denied st h)
+    | |- context [off <? ?x] => destruct (off <? x)
+    | |- context [off =? ?x] => destruct (off =? x)
+    end; try (apply safe_simple; [nodl|reflexivity]); apply read_value_answer_safe.
+Qed.
+
+Lemma write_gen_safe st hk is_cmd h val : safe st hk (h_write_gen V_fixed st hk is_cmd h val).
+Proof.
+  unfold h_write_gen. cbn [fx_write_default fx_sub_record V_fixed].
+  destruct (h =? 0); [apply safe_simple; [nodl|reflexivity]|].
+  destruct (lookup h (st_db st)) as [a|]; [|apply safe_simple; [nodl|reflexivity]].
+  destruct (a_kind a); try (destruct is_cmd; (apply safe_simple; [nodl|reflexivity])).
+  - destruct (write_denied st h E_NOT_FOUND); [apply safe_simple; [nodl|reflexivity]|apply write_value_safe].
+  - match goal with |- context [if ?b then cccd_effects _ _ _ _ _ _ else _] => destruct b end;
+      [apply cccd_effects_safe|apply safe_simple; [nodl|reflexivity]].
+Qed.
+
+Lemma exec_loop_safe q : forall st,
+  match exec_loop V_fixed st q with
+  | inl r => r_exc r = None /\ proc_free (r_state r) = proc_free st
+  | inr st' => proc_free st' = proc_free st
+  end.
+Proof.
+  induction q as [|[h ws] q IH]; intros st; cbn [exec_loop]; [reflexivity|].
+  cbn [fx_exec_perm V_fixed].
+  destruct (lookup h (st_db st)) as [a|]; [|split; reflexivity].
+  destruct (a_kind a); try apply IH.
+  destruct (write_denied st h E_INVALID_HANDLE); [split; reflexivity|].
+  destruct (apply_writes h ws (st_db st)) as [db' ok]. destruct ok; [|split; reflexivity].
+  apply (IH (with_db st db')).
+Qed.
+
+Lemma execute_safe st hk f : safe st hk (h_execute V_fixed st f).
+Proof.
+  unfold h_execute. cbn [fx_exec_clear fx_exec_flags V_fixed].
+  destruct (f =? 0); [apply safe_simple; [nodl|reflexivity]|].
+  destruct (f =? 1); [|apply safe_simple; [nodl|reflexivity]].
+  pose proof (exec_loop_safe (i_queues (st_cur st)) st) as H.
+  destruct (exec_loop V_fixed st (i_queues (st_cur st))) as [r|s].
+  - destruct H as [H1 H2]. apply safe_simple; [rewrite H1; discriminate|exact H2].
+  - apply safe_simple; [nodl|exact H].
+Qed.
+
+(** handlers that do not change the state *)
+Lemma find_info_state st s e : r_state (h_find_info st s e) = st.
+Proof. unfold h_find_info. break; reflexivity. Qed.
+Lemma fbtv_state v st s e ty vr : r_state (h_fbtv v st s e ty vr) = st.
+Proof. unfold h_fbtv. break; reflexivity. Qed.
+Lemma read_by_type_state st s e ty : r_state (h_read_by_type st s e ty) = st.
+Proof. unfold h_read_by_type. break; reflexivity. Qed.
+Lemma read_by_group_state v st s e ty : r_state (h_read_by_group v st s e ty) = st.
+Proof. unfold h_read_by_group. break; reflexivity. Qed.
+
+Lemma find_info_exc st s e : r_exc (h_find_info st s e) = None.
+Proof. unfold h_find_info. break; reflexivity. Qed.
+Lemma read_by_type_exc st s e ty : r_exc (h_read_by_type st s e ty) = None.
+Proof. unfold h_read_by_type. break; reflexivity. Qed.
+Lemma fbtv_exc v st s e ty vr : r_exc (h_fbtv v st s e ty vr) <> Some ExDeadlock.
+Proof. unfold h_fbtv. break; cbn; discriminate. Qed.
+Lemma read_by_group_exc v st s e ty : r_exc (h_read_by_group v st s e ty) <> Some ExDeadlock.
+Proof. unfold h_read_by_group. break; cbn; discriminate. Qed.
+
+Lemma locked_safe st hk body :
+  tx_locked st = false -> safe (with_lock st true) hk (body (with_lock st true)) ->
+  (h_acts hk = no_acts -> tx_locked (r_state (locked V_fixed st body)) = false)
+  /\ (proc_free st = true -> notif_hooks_return hk = true ->
+      tx_locked (r_state (locked V_fixed st body)) = false /\ proc_free (r_state (locked V_fixed st body)) = true).
+Proof.
+  intros Hl [S1 S2]. unfold locked. rewrite Hl. cbn [fx_finally V_fixed negb].
+  split.
+  - intros H. specialize (S1 H). destruct (r_exc (body (with_lock st true))) as [[]|]; try reflexivity. contradiction.
+  - intros Hp Hq. destruct (S2 Hp Hq) as [S3 S4].
+    destruct (r_exc (body (with_lock st true))) as [[]|]; try (split; [reflexivity|exact S4]). contradiction.
+Qed.
+
+Lemma handle_safe st r hk :
+  tx_locked st = false ->
+  (h_acts hk = no_acts -> tx_locked (r_state (handle V_fixed st r hk)) = false)
+  /\ (proc_free st = true -> notif_hooks_return hk = true ->
+      tx_locked (r_state (handle V_fixed st r hk)) = false /\ proc_free (r_state (handle V_fixed st r hk)) = true).
+Proof.
+  intros Hl.
+  assert (Triv : (h_acts hk = no_acts -> tx_locked st = false)
+                 /\ (proc_free st = true -> notif_hooks_return hk = true -> tx_locked st = false /\ proc_free st = true)) by auto.
+  destruct r; cbn [handle fx_rbt128 V_fixed]; try exact Triv; try apply (locked_safe st hk _ Hl).
+  - apply safe_simple; [nodl|]. unfold h_mtu. destruct (23 <=? mtu); reflexivity.
+  - apply safe_simple; [rewrite find_info_exc; discriminate|rewrite find_info_state; reflexivity].
+  - apply safe_simple; [apply fbtv_exc|rewrite fbtv_state; reflexivity].
+  - apply safe_simple; [rewrite read_by_type_exc; discriminate|rewrite read_by_type_state; reflexivity].
+  - apply safe_simple; [rewrite read_by_type_exc; discriminate|rewrite read_by_type_state; reflexivity].
+  - apply read_req_safe.
+  - apply read_blob_safe.
+  - destruct hs; [exact Triv|]. apply (locked_safe st hk _ Hl). apply safe_simple; [nodl|reflexivity].
+  - apply safe_simple; [apply read_by_group_exc|rewrite read_by_group_state; reflexivity].
+  - apply write_gen_safe.
+  - apply write_gen_safe.
+  - apply safe_simple; unfold h_prepare; destruct (lookup h _); cbn; try discriminate; reflexivity.
+  - apply execute_safe.
+  - apply safe_simple; [nodl|reflexivity].
+Qed.
+
+(** no request, whatever the hooks raise or return, leaves the lock held -- provided a hook that
+    updates a characteristic cannot block on the procedure lock *)
+Lemma never_wedges st r hk :
+  tx_locked st = false -> proc_free st = true -> notif_hooks_return hk = true ->
+  tx_locked (fst (server_step st r hk)) = false /\ proc_free (fst (server_step st r hk)) = true.
+Proof. intros Hl Hp Hq. apply (proj2 (handle_safe st r hk Hl) Hp Hq). Qed.
+
+Lemma never_wedges_no_updates st r hk :
+  tx_locked st = false -> h_acts hk = no_acts -> tx_locked (fst (server_step st r hk)) = false.
+Proof. intros Hl Ha. apply (proj1 (handle_safe st r hk Hl) Ha). Qed.
+
+(** ... along every history *)
+Definition ev_quiet (ev : event) : bool :=
+  match ev with EvReq _ hk | EvAppSet _ _ hk => notif_hooks_return hk | _ => true end.
+
+Lemma app_set_lock st d val hk : tx_locked (r_state (app_set st d val hk)) = tx_locked st.
+Proof. apply (fr_lock _ _ (app_set_frame st d val hk)). Qed.
+
+Lemma step_unlocked st ev :
+  tx_locked st = false -> proc_free st = true -> ev_quiet ev = true ->
+  tx_locked (r_state (step V_fixed st ev)) = false /\ proc_free (r_state (step V_fixed st ev)) = true.
+Proof.
+  intros Hl Hp Hq. destruct ev; cbn [step ev_quiet] in *.
+  - destruct (st_connected st); [apply (proj2 (handle_safe st r hk Hl) Hp Hq)|auto].
+  - cbn [r_state done]. destruct (st_connected st); auto.
+  - rewrite app_set_lock. split; [exact Hl|apply (app_set_quiet st decl v hk Hp Hq)].
+  - cbn [r_state done]. unfold disconnect. destruct (st_connected st); [|auto].
+    cbn [fx_disc_term V_fixed]. split; [exact Hl|exact Hp].
+  - cbn [r_state done]. unfold connect. destruct (st_connected st); [auto|]. split; [reflexivity|].
+    unfold proc_free in *. cbn [st_cur st_dead new_inst i_proc_locked negb forallb andb]. exact Hp.
+Qed.
+
+Lemma never_wedges_history evs : forall st,
+  tx_locked st = false -> proc_free st = true -> forallb ev_quiet evs = true ->
+  tx_locked (run_state V_fixed st evs) = false /\ proc_free (run_state V_fixed st evs) = true.
+Proof.
+  induction evs as [|ev r IH]; intros st Hl Hp Hq; cbn [run_state]; [auto|].
+  cbn [forallb] in Hq. apply andb_true_iff in Hq as [Hq1 Hq2].
+  destruct (step_unlocked st ev Hl Hp Hq1) as [H1 H2]. apply IH; assumption.
+Qed.
+
+(** the probe request of the harness is answered in every unlocked, connected state *)
+Lemma probe_answered st :
+  tx_locked st = false ->
+  r_out (handle V_fixed st (Read 0) no_hooks) = [PError 10 0 1].
+Proof. intros H. cbn [handle]. unfold locked. rewrite H. cbn. reflexivity. Qed.
+
+(** * one_response *)
+
+Definition rsps (out : list att_pdu) : list att_pdu := filter is_rsp out.
+
+Lemma rsps_app a b : rsps (a ++ b) = rsps a ++ rsps b.
+Proof. apply filter_app. Qed.
+
+Lemma rsps_act st pd : act_out_ok st pd -> rsps pd = [].
+Proof.
+  induction 1 as [|p r [H _] _ IH]; [reflexivity|]. unfold rsps in *. cbn [filter]. rewrite H. exact IH.
+Qed.
+
+Lemma rsps_all out : Forall (fun p => is_rsp p = true) out -> rsps out = out.
+Proof. induction 1 as [|p r H _ IH]; [reflexivity|]. unfold rsps in *. cbn [filter]. rewrite H, IH. reflexivity. Qed.
+
+Lemma hooks_behave_inv hk : hooks_behave hk = true ->
+  raises_other (h_read hk) = false /\ raises_other (h_write hk) = false /\ raises_other (h_written hk) = false
+  /\ raises_other (h_written2 hk) = false /\ raises_other (h_sub hk) = false /\ raises_other (h_unsub hk) = false.
+Proof.
+  unfold hooks_behave. intros H. apply negb_true_iff in H.
+  repeat (apply orb_false_iff in H; destruct H as [H ?]). repeat split; assumption.
+Qed.
+
+Lemma hook_error_rsps st op opa h o : rsps (r_out (hook_error st op opa h o)) = r_out (hook_error st op opa h o).
+Proof. destruct o as [|x| | | | |g1 g2 g3|]; reflexivity. Qed.
+
+Lemma hook_error_len st op opa h o :
+  match o with HReturn | HOverride _ | HRaiseOther => False | _ => True end ->
+  length (r_out (hook_error st op opa h o)) = 1%nat.
+Proof. destruct o as [|x| | | | |g1 g2 g3|]; cbn; intros; try reflexivity; contradiction. Qed.
+
+Section Quiet.
+Variable hk : hook_oracle.
+Hypothesis Hq : notif_hooks_return hk = true.
+
+Lemma hook_act_quiet st act o st1 pd res :
+  proc_free st = true -> hook_act st hk act o = (st1, pd, res) ->
+  res = HOut o /\ proc_free st1 = true /\ rsps pd = [].
+Proof.
+  intros Hp E. destruct (hook_act_spec _ _ _ _ _ _ _ E) as (_ & Ho & _ & Hqq & _).
+  destruct (Hqq Hp Hq) as [-> Hp1]. repeat split; [exact Hp1|apply (rsps_act st), Ho].
+Qed.
+
+Lemma post_hook_rsps st act o out : rsps (r_out (post_hook st hk act o out)) = rsps out.
+Proof.
+  unfold post_hook. destruct (hook_act st hk act o) as [[st1 pd] res] eqn:E.
+  destruct (hook_act_spec _ _ _ _ _ _ _ E) as (_ & Ho & _).
+  assert (R : rsps (out ++ pd) = rsps out) by (rewrite rsps_app, (rsps_act st pd Ho), app_nil_r; reflexivity).
+  destruct res as [o'|]; [destruct o'|]; exact R.
+Qed.
+
+Lemma read_value_answer_len st op opa h (mk : bytes -> att_pdu) normal :
+  proc_free st = true -> (forall x, is_rsp (mk x) = true) -> raises_other (h_read hk) = false ->
+  length (rsps (r_out (read_value_answer st hk op opa h mk normal))) = 1%nat.
+Proof.
+  intros Hp Hmk Hr. unfold read_value_answer.
+  destruct (hook_act st hk (ha_read (h_acts hk)) (h_read hk)) as [[st1 pd] res] eqn:E.
+  destruct (hook_act_quiet _ _ _ _ _ _ Hp E) as (-> & _ & Hpd).
+  destruct (h_read hk) as [|x| | | | |g1 g2 g3|]; try discriminate; cbn [r_out done prepend];
+    rewrite rsps_app, Hpd; try (unfold rsps; cbn [filter app]; rewrite Hmk; reflexivity);
+    rewrite hook_error_rsps; reflexivity.
+Qed.
+
+Lemma find_info_len st s e : length (rsps (r_out (h_find_info st s e))) = 1%nat.
+Proof. unfold h_find_info. break; reflexivity. Qed.
+
+Lemma fbtv_match_fixed st ty vr attrs : fbtv_match V_fixed st ty vr attrs <> None.
+Proof.
+  induction attrs as [|a r IH]; cbn [fbtv_match]; [discriminate|].
+  destruct (negb (bytes_eqb ty (a_type a))); [exact IH|].
+  destruct (fbtv_match V_fixed st ty vr r); [|contradiction].
+  cbn [fx_fbtv V_fixed]. destruct (a_kind a); discriminate.
+Qed.
+
+Lemma fbtv_len st s e ty vr : length (rsps (r_out (h_fbtv V_fixed st s e ty vr))) = 1%nat.
+Proof.
+  unfold h_fbtv. destruct ((s =? 0) || (e <? s)); [reflexivity|].
+  destruct (fbtv_match V_fixed st (uuid16 ty) vr (by_range s e (st_db st))) as [l|] eqn:E.
+  - destruct l; reflexivity.
+  - exfalso. exact (fbtv_match_fixed _ _ _ _ E).
+Qed.
+
+Lemma read_req_len st h :
+  proc_free st = true -> raises_other (h_read hk) = false ->
+  length (rsps (r_out (h_read_req V_fixed st hk h))) = 1%nat.
+Proof.
+  intros Hp Hr. unfold h_read_req. cbn [fx_read_default V_fixed].
+  destruct (h =? 0); [reflexivity|].
+  destruct (lookup h (st_db st)) as [a|]; [|reflexivity].
+  destruct (a_kind a); try reflexivity.
+  destruct (read_denied st h); [reflexivity|apply read_value_answer_len; auto].
+Qed.
+
+Lemma read_blob_len st h off :
+  proc_free st = true -> raises_other (h_read hk) = false ->
+  length (rsps (r_out (h_read_blob V_fixed st hk h off))) = 1%nat.
+Proof.
+  intros Hp Hr. unfold h_read_blob, blob_value_branch. cbn [fx_blob V_fixed].
+  destruct (h =? 0); [reflexivity|].
+  destruct (lookup h (st_db st)) as [a|]; [|reflexivity].
+  destruct (a_kind a);
+    repeat match goal with
+    | |- context [read_denied st h] => destruct (read_denied st h)
+    | |- context [off <? ?x] => destruct (off <? x)
+    | |- context [off =? ?x] => destruct (off =? x)
+    end; try reflexivity; apply read_value_answer_len; auto.
+Qed.
+
+Lemma cccd_effects_out st h newv record out : rsps (r_out (cccd_effects st hk h newv record out)) = rsps out.
+Proof.
+  unfold cccd_effects.
+  destruct (un_le16_2 newv) as [cfg|]; [|reflexivity].
+  destruct (owner_decl h (st_db st) None) as [d|]; [|reflexivity].
+  destruct (cfg =? 1); [destruct record; apply post_hook_rsps|].
+  destruct (cfg =? 2); [destruct record; apply post_hook_rsps|].
+  destruct (cfg =? 0); [apply post_hook_rsps|reflexivity].
+Qed.
+
+Lemma write_value_len st op opa h val rsp :
+  proc_free st = true -> rsps rsp = rsp ->
+  is_return (h_written hk) = true -> raises_other (h_write hk) = false ->
+  length (rsps (r_out (write_value st hk op opa h val rsp))) = length rsp
+  \/ length (rsps (r_out (write_value st hk op opa h val rsp))) = 1%nat.
+Proof.
+  intros Hp Hrsp Hw Hr. unfold write_value. cbv zeta.
+  dha ha_write st1 pd1 res1 E1.
+  destruct (hook_act_quiet _ _ _ _ _ _ Hp E1) as (-> & Hp1 & Hpd1).
+  destruct (h_write hk) as [|x| | | | |g1 g2 g3|]; try discriminate;
+    try (right; cbn [r_out prepend]; rewrite rsps_app, Hpd1, hook_error_rsps; reflexivity).
+  - dha ha_written st3 pd3 res3 E3.
+    destruct (hook_act_quiet (with_db st1 (update h (fun a => set_value a val) (st_db st1))) _ _ _ _ _ Hp1 E3) as (-> & Hp3 & Hpd3).
+    destruct (h_written hk); try discriminate. left. cbn [r_out done].
+    rewrite !rsps_app, Hpd1, Hpd3, Hrsp, app_nil_r. reflexivity.
+  - left. rewrite post_hook_rsps, rsps_app, Hpd1, Hrsp. reflexivity.
+Qed.
+
+Lemma write_gen_len st is_cmd h val :
+  proc_free st = true -> is_return (h_written hk) = true -> raises_other (h_write hk) = false ->
+  let n := length (rsps (r_out (h_write_gen V_fixed st hk is_cmd h val))) in
+  if is_cmd then (n <= 1)%nat else n = 1%nat.
+Proof.
+  intros Hp Hw Hr. unfold h_write_gen. cbn [fx_write_default fx_sub_record V_fixed].
+  assert (Hrsp : rsps (if is_cmd then [] else [PWriteRsp]) = (if is_cmd then [] else [PWriteRsp])) by (destruct is_cmd; reflexivity).
+  assert (Hlen : length (if is_cmd then [] else [PWriteRsp]) = if is_cmd then 0%nat else 1%nat) by (destruct is_cmd; reflexivity).
+  destruct (h =? 0); [destruct is_cmd; cbn; lia|].
+  destruct (lookup h (st_db st)) as [a|]; [|destruct is_cmd; cbn; lia].
+  destruct (a_kind a); try (destruct is_cmd; cbn; lia).
+  - destruct (write_denied st h E_NOT_FOUND); [destruct is_cmd; cbn; lia|].
+    destruct (write_value_len st (if is_cmd then OP_WCMD else OP_WRITE) (if is_cmd then OP_WCMD else OP_READ) h val
+                (if is_cmd then [] else [PWriteRsp]) Hp Hrsp Hw Hr) as [E|E]; cbv zeta; rewrite E; rewrite ?Hlen; destruct is_cmd; lia.
+  - match goal with |- context [if ?b then cccd_effects _ _ _ _ _ _ else _] => destruct b end.
+    + cbv zeta. rewrite cccd_effects_out, Hrsp, Hlen. destruct is_cmd; lia.
+    + destruct is_cmd; cbn; lia.
+Qed.
+
+End Quiet.
+
+Lemma prepare_len st h off val : length (rsps (r_out (h_prepare st h off val))) = 1%nat.
+Proof. unfold h_prepare. destruct (lookup h (st_db st)); reflexivity. Qed.
+
+Lemma exec_loop_len q : forall st r, exec_loop V_fixed st q = inl r -> length (rsps (r_out r)) = 1%nat.
+Proof.
+  induction q as [|[h ws] q IH]; intros st r; cbn [exec_loop]; [discriminate|].
+  cbn [fx_exec_perm V_fixed].
+  destruct (lookup h (st_db st)) as [a|]; [|intros E; inversion E; reflexivity].
+  destruct (a_kind a); try apply IH.
+  destruct (write_denied st h E_INVALID_HANDLE); [intros E; inversion E; reflexivity|].
+  destruct (apply_writes h ws (st_db st)) as [db' ok]. destruct ok; [apply IH|intros E; inversion E; reflexivity].
+Qed.
+
+Lemma execute_len st f : length (rsps (r_out (h_execute V_fixed st f))) = 1%nat.
+Proof.
+  unfold h_execute. destruct (f =? 0); [reflexivity|]. destruct (f =? 1); [|reflexivity].
+  destruct (exec_loop V_fixed st (i_queues (st_cur st))) eqn:E; [eapply exec_loop_len; eauto|reflexivity].
+Qed.
+
+Lemma read_by_type_len st s e ty : length (rsps (r_out (h_read_by_type st s e ty))) = 1%nat.
+Proof. unfold h_read_by_type. break; reflexivity. Qed.
+
+Lemma group_items_fixed usz attrs : group_items V_fixed usz attrs <> None.
+Proof.
+  induction attrs as [|a r IH]; cbn [group_items]; [discriminate|].
+  cbn [fx_group_desc V_fixed].
+  destruct (a_kind a); (destruct (nlen (obj_uuid a) =? usz); [|discriminate]);
+    destruct (group_items V_fixed usz r); try discriminate; contradiction.
+Qed.
+
+Lemma read_by_group_len st s e ty : length (rsps (r_out (h_read_by_group V_fixed st s e ty))) = 1%nat.
+Proof.
+  unfold h_read_by_group. destruct ((s =? 0) || (e <? s)); [reflexivity|].
+  destruct (negb (existsb (N.eqb ty) SUPPORTED_GROUPS)); [reflexivity|].
+  destruct (by_type (uuid16 ty) s e (st_db st)) as [|a0 r]; [reflexivity|].
+  cbv zeta.
+  match goal with |- context [group_items V_fixed ?u ?l] => destruct (group_items V_fixed u l) eqn:E end;
+    [reflexivity | exfalso; exact (group_items_fixed _ _ E)].
+Qed.
+
+(** exactly one response per request, at most one per command, one confirmation per indication
+    (notifications a hook's update sends meanwhile are not responses) *)
+Lemma one_response st r hk :
+  tx_locked st = false -> proc_free st = true -> notif_hooks_return hk = true ->
+  wf_request (mtu_of st) r = true ->
+  hooks_behave hk = true -> is_return (h_written hk) = true ->
+  let rsp := rsps (snd (server_step st r hk)) in
+  (is_request r = true -> length rsp = 1%nat)
+  /\ (is_command r = true -> (length rsp <= 1)%nat)
+  /\ (is_indication r = true -> rsp = [PConfirmation]).
+Proof.
+  intros Hl Hp Hq Hwf Hb Hw. apply hooks_behave_inv in Hb as (Hr & Hwr & _).
+  unfold server_step, server_step_v. cbn [snd].
+  assert (Hp' : proc_free (with_lock st true) = true) by exact Hp.
+  pose proof (fun h v => write_gen_len hk Hq (with_lock st true) false h v Hp' Hw Hwr) as Wreq.
+  pose proof (fun h v => write_gen_len hk Hq (with_lock st true) true h v Hp' Hw Hwr) as Wcmd.
+  cbv zeta in Wreq, Wcmd.
+  destruct r; cbn [handle is_request is_command is_indication fx_rbt128 V_fixed];
+    rewrite ?(locked_out _ _ _ Hl);
+    (split; [intros Hk | split; intros Hk]); try discriminate Hk;
+    try first [ reflexivity | apply find_info_len | apply fbtv_len | apply read_by_type_len
+              | apply (read_req_len hk Hq); assumption | apply (read_blob_len hk Hq); assumption | apply read_by_group_len
+              | apply Wreq | apply Wcmd | apply prepare_len | apply execute_len
+              | (cbn; lia) ].
+  destruct hs as [|h0 hs]; [|rewrite (locked_out _ _ _ Hl); reflexivity].
+  unfold wf_request in Hwf. cbn [forallb negb andb] in Hwf. rewrite andb_false_r in Hwf. discriminate.
+Qed.
+
+(** * fits_mtu *)
+
 Definition fits (m : N) (out : list att_pdu) : Prop := Forall (fun p => att_size p <= m) out.
 
 Lemma fits_nil m : fits m [].
 Proof. constructor. Qed.
+
 Lemma fits_one m p : att_size p <= m -> fits m [p].
 Proof. intros. constructor; [assumption|constructor]. Qed.
+
 Lemma fits_err m st a b c : 23 <= m -> fits m (r_out (err st a b c)).
 Proof. intros. apply fits_one. rewrite size_error. lia. Qed.
 
@@ -378,6 +1066,7 @@ Qed.
 
 Lemma by_range_in s e db a : In a (by_range s e db) -> In a db.
 Proof. unfold by_range. intros H. apply filter_In in H. tauto. Qed.
+
 Lemma by_type_in ty s e db a : In a (by_type ty s e db) -> In a db /\ bytes_eqb (a_type a) ty = true.
 Proof. unfold by_type. intros H. apply filter_In in H as [H1 H2]. apply andb_true_iff in H2. tauto. Qed.
 
@@ -412,14 +1101,6 @@ Proof.
   pose proof (firstn_le_length (N.to_nat ((mtu_of st - 1) / 4)) (x :: l)). lia.
 Qed.
 
-Lemma read_value_answer_fits st op opa h o (mk : bytes -> att_pdu) n ov m :
-  23 <= m -> att_size (mk n) <= m -> att_size (mk ov) <= m ->
-  fits m (r_out (read_value_answer st op opa h o mk n ov)).
-Proof.
-  intros. destruct o as [|x| | | | |g1 g2 g3|]; cbn [read_value_answer hook_error r_out done err raise];
-    try (apply fits_one; rewrite ?size_error; lia); try apply fits_nil.
-Qed.
-
 Lemma payload_len a : wf_attr a = true ->
   match a_kind a with
   | KDecl => nlen (payload a) = 3 + nlen (a_uuid a) /\ (nlen (a_uuid a) = 2 \/ nlen (a_uuid a) = 16)
@@ -436,43 +1117,6 @@ Proof.
   - nl. split; [lia|exact Hu].
 Qed.
 
-Lemma read_req_fits st hk h :
-  23 <= mtu_of st -> forallb wf_attr (st_db st) = true ->
-  fits (mtu_of st) (r_out (h_read_req V_fixed st hk h)).
-Proof.
-  intros Hm Hwf. unfold h_read_req. cbn [fx_read_default V_fixed].
-  destruct (h =? 0); [apply fits_err, Hm|].
-  destruct (lookup h (st_db st)) as [a|] eqn:El; [|apply fits_err, Hm].
-  pose proof (payload_len a (lookup_wf _ _ _ Hwf El)) as Hp.
-  pose proof (nlen_trunc (mtu_of st - 1) (a_value a)).
-  pose proof (nlen_trunc (mtu_of st - 1) (payload a)).
-  destruct (a_kind a); try (apply fits_one; rewrite size_read; lia).
-  destruct (read_denied st h); [apply fits_err, Hm|].
-  apply read_value_answer_fits; try exact Hm; rewrite size_read; [lia|].
-  destruct (h_read hk); try (cbn; lia). pose proof (nlen_trunc (mtu_of st - 1) v). lia.
-Qed.
-
-Lemma read_blob_fits st hk h off :
-  23 <= mtu_of st -> fits (mtu_of st) (r_out (h_read_blob V_fixed st hk h off)).
-Proof.
-  intros Hm. unfold h_read_blob. cbn [fx_blob V_fixed].
-  destruct (h =? 0); [apply fits_err, Hm|].
-  destruct (lookup h (st_db st)) as [a|]; [|apply fits_err, Hm].
-  assert (Hb : forall a', fits (mtu_of st) (r_out (blob_value_branch st hk h off a'))).
-  { intros. unfold blob_value_branch. apply read_value_answer_fits; try exact Hm; rewrite size_blob.
-    - pose proof (nlen_bslice off (mtu_of st - 1) (a_value a')). lia.
-    - destruct (h_read hk); try (cbn; lia). pose proof (nlen_trunc (mtu_of st - 1) v). lia. }
-  assert (Hs : forall v, fits (mtu_of st) [PReadBlobRsp (bslice off (mtu_of st - 1) v)]).
-  { intros. apply fits_one. rewrite size_blob. pose proof (nlen_bslice off (mtu_of st - 1) v). lia. }
-  assert (He : fits (mtu_of st) [PReadBlobRsp []]) by (apply fits_one; rewrite size_blob; cbn; lia).
-  destruct (a_kind a);
-    repeat match goal with
-    | |- context [read_denied st h] => destruct (read_denied st h)
-    | |- context [off <? ?x] => destruct (off <? x)
-    | |- context [off =? ?x] => destruct (off =? x)
-    end; cbn [r_out done]; try apply fits_err, Hm; try apply Hb; try apply Hs; try apply He.
-Qed.
-
 Lemma size_small p m : 23 <= m ->
   match p with PWriteRsp | PExecuteWriteRsp | PConfirmation | PMtuRsp _ | PError _ _ _ => True | _ => False end ->
   att_size p <= m.
@@ -483,33 +1127,6 @@ Proof. intros. apply Forall_app. split; assumption. Qed.
 
 Lemma hook_error_fits st op opa h o m : 23 <= m -> fits m (r_out (hook_error st op opa h o)).
 Proof. intros. destruct o as [|x| | | | |g1 g2 g3|]; cbn; try apply fits_nil; apply fits_one; rewrite size_error; lia. Qed.
-
-Lemma write_value_fits st hk op opa h val rsp m :
-  23 <= m -> fits m rsp -> fits m (r_out (write_value st hk op opa h val rsp)).
-Proof.
-  intros Hm Hr. unfold write_value.
-  destruct (h_write hk); try apply hook_error_fits, Hm.
-  - destruct (h_written hk); cbn [r_out done raise]; try exact Hr;
-      try (apply fits_app; [exact Hr|apply hook_error_fits, Hm]).
-    destruct (h_written2 hk); cbn [r_out done raise]; apply fits_app; exact Hr.
-  - destruct (h_written hk); exact Hr.
-Qed.
-
-Lemma write_gen_fits st hk is_cmd h val :
-  23 <= mtu_of st -> fits (mtu_of st) (r_out (h_write_gen V_fixed st hk is_cmd h val)).
-Proof.
-  intros Hm. unfold h_write_gen. cbn [fx_write_default fx_sub_record V_fixed].
-  assert (Hrsp : fits (mtu_of st) (if is_cmd then [] else [PWriteRsp])).
-  { destruct is_cmd; [apply fits_nil|apply fits_one, size_small; [exact Hm|exact I]]. }
-  destruct (h =? 0); [apply fits_err, Hm|].
-  destruct (lookup h (st_db st)) as [a|]; [|apply fits_err, Hm].
-  destruct (a_kind a); try (destruct is_cmd; cbn [andb negb]; first [apply fits_err, Hm | apply fits_nil]).
-  - destruct (write_denied st h E_NOT_FOUND); [apply fits_err, Hm|].
-    apply write_value_fits; assumption.
-  - match goal with |- context [if ?b then cccd_effects _ _ _ _ _ _ else _] => destruct b end.
-    + rewrite cccd_effects_out. exact Hrsp.
-    + apply fits_err, Hm.
-Qed.
 
 Lemma prepare_fits st h off val :
   5 + nlen val <= mtu_of st -> 23 <= mtu_of st -> fits (mtu_of st) (r_out (h_prepare st h off val)).
@@ -598,35 +1215,171 @@ Proof.
   - intros it Hin. unfold enc_hhv. nl. rewrite (H2 it Hin). lia.
 Qed.
 
-(** every PDU answering a request fits in the MTU in force *)
-Lemma fits_mtu st r hk :
-  wf_state st = true -> tx_locked st = false -> wf_request (mtu_of st) r = true ->
-  fits (mtu_of st) (snd (server_step st r hk)).
+
+Definition pfits (st : state) (out : list att_pdu) : Prop := Forall (fun p => pdu_fits st p = true) out.
+
+Lemma fits_pfits st out : fits (mtu_of st) out -> pfits st out.
 Proof.
-  intros Hwf Hl Hr. unfold wf_state in Hwf.
+  intros H. eapply Forall_impl; [|exact H]. intros p Hp. unfold pdu_fits.
+  apply orb_true_iff. left. apply N.leb_le. exact Hp.
+Qed.
+Lemma pfits_app st a b : pfits st a -> pfits st b -> pfits st (a ++ b).
+Proof. intros. apply Forall_app. split; assumption. Qed.
+Lemma pfits_act st pd : act_out_ok st pd -> pfits st pd.
+Proof. intros H. eapply Forall_impl; [|exact H]. intros p [_ Hp]. exact Hp. Qed.
+Lemma pfits_one st p : att_size p <= mtu_of st -> pfits st [p].
+Proof. intros. apply fits_pfits, fits_one. assumption. Qed.
+
+Lemma hook_act_pfits st0 st hk act o st1 pd res :
+  mframe st0 st -> hook_act st hk act o = (st1, pd, res) -> pfits st0 pd /\ mframe st0 st1.
+Proof.
+  intros F E. destruct (hook_act_spec _ _ _ _ _ _ _ E) as (F1 & Ho & _).
+  split; [apply pfits_act, (act_out_ok_mframe st0 st _ F Ho)|eapply mframe_trans; [exact F|apply frame_m, F1]].
+Qed.
+
+Lemma post_hook_pfits st0 st hk act o out :
+  mframe st0 st -> pfits st0 out -> pfits st0 (r_out (post_hook st hk act o out)).
+Proof.
+  intros F Ho. unfold post_hook. destruct (hook_act st hk act o) as [[st1 pd] res] eqn:E.
+  destruct (hook_act_pfits _ _ _ _ _ _ _ _ F E) as [Hp _].
+  destruct res as [o'|]; [destruct o'|]; cbn [r_out done raise]; apply pfits_app; assumption.
+Qed.
+
+Lemma hook_error_pfits st0 st op opa h o : 23 <= mtu_of st0 -> pfits st0 (r_out (hook_error st op opa h o)).
+Proof. intros. apply fits_pfits, hook_error_fits. assumption. Qed.
+
+Lemma read_value_answer_pfits st hk op opa h (mk : bytes -> att_pdu) normal :
+  23 <= mtu_of st -> (forall s, att_size (mk (normal s)) <= mtu_of st) ->
+  (forall x, att_size (mk (trunc (mtu_of st - 1) x)) <= mtu_of st) ->
+  pfits st (r_out (read_value_answer st hk op opa h mk normal)).
+Proof.
+  intros Hm Hn Hov. unfold read_value_answer.
+  destruct (hook_act st hk (ha_read (h_acts hk)) (h_read hk)) as [[st1 pd] res] eqn:E.
+  destruct (hook_act_pfits st _ _ _ _ _ _ _ (mframe_refl st) E) as [Hp _].
+  destruct res as [o'|]; [|exact Hp].
+  destruct o' as [|x| | | | |g1 g2 g3|]; cbn [r_out done raise prepend]; try (apply pfits_app; [exact Hp|]);
+    try (apply pfits_one; auto); try (apply hook_error_pfits; exact Hm); try (rewrite size_error; lia).
+Qed.
+
+Lemma val_trunc_size st h m1 : nlen (trunc m1 (val_at st h)) <= m1.
+Proof. apply nlen_trunc. Qed.
+
+Lemma read_req_fits st hk h :
+  23 <= mtu_of st -> forallb wf_attr (st_db st) = true ->
+  pfits st (r_out (h_read_req V_fixed st hk h)).
+Proof.
+  intros Hm Hwf. unfold h_read_req. cbn [fx_read_default V_fixed].
+  destruct (h =? 0); [apply fits_pfits, fits_err, Hm|].
+  destruct (lookup h (st_db st)) as [a|] eqn:El; [|apply fits_pfits, fits_err, Hm].
+  pose proof (payload_len a (lookup_wf _ _ _ Hwf El)) as Hp.
+  pose proof (nlen_trunc (mtu_of st - 1) (a_value a)).
+  pose proof (nlen_trunc (mtu_of st - 1) (payload a)).
+  destruct (a_kind a); try (apply pfits_one; rewrite size_read; lia).
+  destruct (read_denied st h); [apply fits_pfits, fits_err, Hm|].
+  apply read_value_answer_pfits; [exact Hm| |]; intros; rewrite size_read;
+    match goal with |- context [trunc ?n ?v] => pose proof (nlen_trunc n v) end; lia.
+Qed.
+
+Lemma read_blob_fits st hk h off :
+  23 <= mtu_of st -> pfits st (r_out (h_read_blob V_fixed st hk h off)).
+Proof.
+  intros Hm. unfold h_read_blob. cbn [fx_blob V_fixed].
+  destruct (h =? 0); [apply fits_pfits, fits_err, Hm|].
+  destruct (lookup h (st_db st)) as [a|]; [|apply fits_pfits, fits_err, Hm].
+  assert (Hb : pfits st (r_out (blob_value_branch st hk h off))).
+  { unfold blob_value_branch. apply read_value_answer_pfits; [exact Hm| |]; intros; rewrite size_blob.
+    - pose proof (nlen_bslice off (mtu_of st - 1) (val_at s h)). lia.
+    - pose proof (nlen_trunc (mtu_of st - 1) x). lia. }
+  assert (Hs : forall v, pfits st [PReadBlobRsp (bslice off (mtu_of st - 1) v)]).
+  { intros. apply pfits_one. rewrite size_blob. pose proof (nlen_bslice off (mtu_of st - 1) v). lia. }
+  assert (He : pfits st [PReadBlobRsp []]) by (apply pfits_one; rewrite size_blob; cbn; lia).
+  destruct (a_kind a);
+    repeat match goal with
+    | |- context [read_denied st h] => destruct (read_denied st h)
+    | |- context [off <? ?x] => destruct (off <? x)
+    | |- context [off =? ?x] => destruct (off =? x)
+    end; cbn [r_out done]; try (apply fits_pfits, fits_err, Hm); try apply Hb; try apply Hs; try apply He.
+Qed.
+
+Lemma write_value_fits st hk op opa h val rsp :
+  23 <= mtu_of st -> pfits st rsp -> pfits st (r_out (write_value st hk op opa h val rsp)).
+Proof.
+  intros Hm Hr. unfold write_value. cbv zeta.
+  dha ha_write st1 pd1 res1 E1.
+  destruct (hook_act_pfits st _ _ _ _ _ _ _ (mframe_refl st) E1) as [Hp1 F1].
+  destruct res1 as [o1|]; [|exact Hp1].
+  destruct o1 as [|x| | | | |g1 g2 g3|]; try (cbn [r_out prepend]; apply pfits_app; [exact Hp1|apply hook_error_pfits, Hm]).
+  - dha ha_written st3 pd3 res3 E3.
+    destruct (hook_act_pfits st (with_db st1 (update h (fun a => set_value a val) (st_db st1))) _ _ _ _ _ _ F1 E3) as [Hp3 F3].
+    assert (Ho3 : pfits st (pd1 ++ rsp ++ pd3)) by (repeat apply pfits_app; assumption).
+    destruct res3 as [o3|]; [|exact Ho3].
+    destruct o3 as [|y| | | | |k1 k2 k3|]; try exact Ho3;
+      try (cbn [r_out prepend]; apply pfits_app; [exact Ho3|apply hook_error_pfits, Hm]).
+    apply (post_hook_pfits st); [exact F3|apply pfits_app; assumption].
+  - apply (post_hook_pfits st); [exact F1|apply pfits_app; assumption].
+Qed.
+
+Lemma cccd_effects_fits st hk h newv record out : pfits st out -> pfits st (r_out (cccd_effects st hk h newv record out)).
+Proof.
+  intros Ho. unfold cccd_effects.
+  destruct (un_le16_2 newv) as [cfg|]; [|exact Ho].
+  destruct (owner_decl h (st_db st) None) as [d|]; [|exact Ho].
+  destruct (cfg =? 1); [destruct record; (apply (post_hook_pfits st); [split; reflexivity|exact Ho])|].
+  destruct (cfg =? 2); [destruct record; (apply (post_hook_pfits st); [split; reflexivity|exact Ho])|].
+  destruct (cfg =? 0); [apply (post_hook_pfits st); [split; reflexivity|exact Ho]|exact Ho].
+Qed.
+
+Lemma write_gen_fits st hk is_cmd h val :
+  23 <= mtu_of st -> pfits st (r_out (h_write_gen V_fixed st hk is_cmd h val)).
+Proof.
+  intros Hm. unfold h_write_gen. cbn [fx_write_default fx_sub_record V_fixed].
+  assert (Hrsp : pfits st (if is_cmd then [] else [PWriteRsp])).
+  { destruct is_cmd; [constructor|apply pfits_one, size_small; [exact Hm|exact I]]. }
+  destruct (h =? 0); [apply fits_pfits, fits_err, Hm|].
+  destruct (lookup h (st_db st)) as [a|]; [|apply fits_pfits, fits_err, Hm].
+  destruct (a_kind a); try (destruct is_cmd; cbn [andb negb]; first [apply fits_pfits, fits_err, Hm | constructor]).
+  - destruct (write_denied st h E_NOT_FOUND); [apply fits_pfits, fits_err, Hm|].
+    apply write_value_fits; assumption.
+  - match goal with |- context [if ?b then cccd_effects _ _ _ _ _ _ else _] => destruct b end.
+    + apply cccd_effects_fits. exact Hrsp.
+    + apply fits_pfits, fits_err, Hm.
+Qed.
+
+(** every PDU emitted while a request is handled fits: responses in the MTU in force, the
+    notifications of a hook's update in the MTU of the instance that sends them *)
+Lemma fits_mtu st r hk :
+  wf_state st = true -> wf_request (mtu_of st) r = true ->
+  pfits st (snd (server_step st r hk)).
+Proof.
+  intros Hwf Hr. unfold wf_state in Hwf.
   apply andb_true_iff in Hwf as [Hwf _]. apply andb_true_iff in Hwf as [Hwf _].
   apply andb_true_iff in Hwf as [Hdb Hm]. apply N.leb_le in Hm.
   unfold wf_db in Hdb. apply andb_true_iff in Hdb as [Hdb _]. apply andb_true_iff in Hdb as [_ Hattrs].
   unfold server_step, server_step_v. cbn [snd].
+  destruct (tx_locked st) eqn:Hl.
+  { (* the lock is held: nothing is emitted *)
+    destruct r; cbn [handle fx_rbt128 V_fixed]; unfold locked; rewrite ?Hl; try (cbn [r_out done raise]; constructor; fail).
+    destruct hs; cbn [r_out done raise]; constructor. }
   assert (Hm' : 23 <= mtu_of (with_lock st true)) by exact Hm.
   assert (Ha' : forallb wf_attr (st_db (with_lock st true)) = true) by exact Hattrs.
-  change (mtu_of st) with (mtu_of (with_lock st true)) in Hr |- *.
-  destruct r; cbn [handle fx_rbt128 V_fixed]; rewrite ?(locked_out _ _ _ Hl); try apply fits_nil.
-  - unfold h_mtu. cbv zeta. apply fits_one, size_small; [exact Hm'|exact I].
-  - apply find_info_fits; assumption.
-  - apply fbtv_fits; assumption.
-  - apply read_by_type_fits; assumption.
-  - apply read_by_type_fits; assumption.
+  assert (Conv : forall out, pfits (with_lock st true) out -> pfits st out) by (intros out H; exact H).
+  change (mtu_of st) with (mtu_of (with_lock st true)) in Hr.
+  destruct r; cbn [handle fx_rbt128 V_fixed]; rewrite ?(locked_out _ _ _ Hl); try (cbn [r_out done]; constructor; fail); apply Conv.
+  - unfold h_mtu. cbv zeta. cbn [r_out done]. apply pfits_one, size_small; [exact Hm'|exact I].
+  - apply fits_pfits, find_info_fits; assumption.
+  - apply fits_pfits, fbtv_fits; assumption.
+  - apply fits_pfits, read_by_type_fits; assumption.
+  - apply fits_pfits, read_by_type_fits; assumption.
   - apply read_req_fits; assumption.
   - apply read_blob_fits; assumption.
-  - destruct hs; [apply fits_nil|]. rewrite (locked_out _ _ _ Hl). apply fits_err, Hm'.
-  - apply read_by_group_fits; assumption.
+  - destruct hs; [constructor|]. rewrite (locked_out _ _ _ Hl). apply fits_pfits, fits_err, Hm'.
+  - apply fits_pfits, read_by_group_fits; assumption.
   - apply write_gen_fits; assumption.
   - apply write_gen_fits; assumption.
-  - apply prepare_fits; [|assumption]. unfold wf_request in Hr. apply andb_true_iff in Hr as [Hr _].
+  - apply fits_pfits, prepare_fits; [|assumption]. unfold wf_request in Hr. apply andb_true_iff in Hr as [Hr _].
     cbn [req_size] in Hr. apply N.leb_le in Hr. exact Hr.
-  - apply execute_fits; assumption.
-  - apply fits_one, size_small; [exact Hm'|exact I].
+  - apply fits_pfits, execute_fits; assumption.
+  - apply pfits_one, size_small; [exact Hm'|exact I].
 Qed.
 
 (** * list_response_wf *)
@@ -860,13 +1613,15 @@ Qed.
 
 (** list responses: handles inside the requested range, strictly increasing, one item length, not empty *)
 Lemma list_response_wf st r hk s e :
-  wf_state st = true -> tx_locked st = false -> req_range r = Some (s, e) ->
+  wf_state st = true -> req_range r = Some (s, e) ->
   Forall (fun p => list_rsp_ok s e p = true) (snd (server_step st r hk)).
 Proof.
-  intros Hwf Hl Hr. unfold wf_state in Hwf.
+  intros Hwf Hr. unfold wf_state in Hwf.
   apply andb_true_iff in Hwf as [Hwf _]. apply andb_true_iff in Hwf as [Hwf _].
   apply andb_true_iff in Hwf as [Hdb Hm]. apply N.leb_le in Hm.
   unfold server_step, server_step_v. cbn [snd].
+  destruct (tx_locked st) eqn:Hl.
+  { destruct r; cbn [req_range] in Hr; try discriminate; cbn [handle fx_rbt128 V_fixed]; unfold locked; rewrite Hl; constructor. }
   assert (Hm' : 23 <= mtu_of (with_lock st true)) by exact Hm.
   assert (Hd' : wf_db (st_db (with_lock st true)) = true) by exact Hdb.
   destruct r; cbn [req_range] in Hr; try discriminate; inversion Hr; subst;
@@ -878,203 +1633,108 @@ Proof.
   - apply read_by_group_list_ok; assumption.
 Qed.
 
-(** * Static part of the database, well-formedness is preserved *)
+(** * Well-formedness is an invariant *)
 
-Definition static_eq (a b : attr) : Prop :=
-  a_handle a = a_handle b /\ a_kind a = a_kind b /\ a_type a = a_type b /\ a_uuid a = a_uuid b
-  /\ a_end a = a_end b /\ a_props a = a_props b /\ a_sec a = a_sec b
-  /\ a_istart a = a_istart b /\ a_iend a = a_iend b.
-Definition attr_ext (a b : attr) : Prop := static_eq a b /\ (wf_attr a = true -> wf_attr b = true).
-Definition db_ext (d1 d2 : db_t) : Prop := Forall2 attr_ext d1 d2.
+(** kinds of the attributes are never changed *)
+Definition kinds_same (st st' : state) : Prop :=
+  forall h, option_map a_kind (lookup h (st_db st')) = option_map a_kind (lookup h (st_db st)).
 
-Lemma static_eq_refl a : static_eq a a.
-Proof. unfold static_eq. tauto. Qed.
-Lemma static_eq_trans a b c : static_eq a b -> static_eq b c -> static_eq a c.
-Proof. unfold static_eq. intuition congruence. Qed.
-Lemma attr_ext_refl a : attr_ext a a.
-Proof. split; [apply static_eq_refl|auto]. Qed.
-Lemma attr_ext_trans a b c : attr_ext a b -> attr_ext b c -> attr_ext a c.
-Proof. intros [S1 W1] [S2 W2]. split; [eapply static_eq_trans; eauto|auto]. Qed.
-Lemma db_ext_refl d : db_ext d d.
-Proof. induction d; constructor; [apply attr_ext_refl|assumption]. Qed.
-Lemma db_ext_trans d1 d2 d3 : db_ext d1 d2 -> db_ext d2 d3 -> db_ext d1 d3.
+Lemma kinds_same_refl st : kinds_same st st.
+Proof. intros h. reflexivity. Qed.
+Lemma kinds_same_trans a b c : kinds_same a b -> kinds_same b c -> kinds_same a c.
+Proof. intros H1 H2 h. rewrite H2, H1. reflexivity. Qed.
+
+Lemma lookup_update_kind h0 (f : attr -> attr) db h :
+  (forall a, a_handle (f a) = a_handle a /\ a_kind (f a) = a_kind a) ->
+  option_map a_kind (lookup h (update h0 f db)) = option_map a_kind (lookup h db).
 Proof.
-  intros H. revert d3. induction H; intros d3 H3; inversion H3; subst; constructor.
-  - eapply attr_ext_trans; eauto.
-  - apply IHForall2. assumption.
+  intros Hf. induction db as [|x r IH]; cbn [update lookup]; [reflexivity|].
+  destruct (a_handle x =? h0); cbn [lookup].
+  - destruct (Hf x) as [H1 H2]. rewrite H1. destruct (a_handle x =? h); [cbn; rewrite H2; reflexivity|reflexivity].
+  - destruct (a_handle x =? h); [reflexivity|exact IH].
 Qed.
 
-Lemma db_ext_sorted d1 d2 : db_ext d1 d2 -> forall lo, sorted_from lo d1 = sorted_from lo d2.
+Lemma kinds_same_store st h0 x : kinds_same st (with_db st (update h0 (fun a => set_value a x) (st_db st))).
+Proof. intros h. cbn [st_db with_db]. apply lookup_update_kind. intros a. split; reflexivity. Qed.
+
+Lemma app_set_kinds st d v hk : kinds_same st (r_state (app_set st d v hk)).
 Proof.
-  induction 1 as [|a b r1 r2 [S _] _ IH]; intros lo; cbn [sorted_from]; [reflexivity|].
-  destruct S as (Hh & _). rewrite Hh, IH. reflexivity.
+  assert (Hdb : forall st1, app_db st d v st1 -> kinds_same st st1).
+  { intros st1 [->|(a & _ & _ & ->)]; [apply kinds_same_refl|apply kinds_same_store]. }
+  destruct (app_set_shape st d v hk) as [st1 H|st1 id H|st1 id H]; cbn [r_state done]; [apply Hdb, H| |];
+    intros h; rewrite notify_via_db; apply (Hdb _ H).
 Qed.
 
-Definition pend_eq (p q : option attr) : Prop :=
-  match p, q with None, None => True | Some a, Some b => static_eq a b | _, _ => False end.
-
-Lemma db_ext_struct d1 d2 : db_ext d1 d2 -> forall p q b c, pend_eq p q ->
-  wf_struct d1 p b c = wf_struct d2 q b c.
+Lemma hook_act_kinds st hk act o st1 pd res : hook_act st hk act o = (st1, pd, res) -> kinds_same st st1.
 Proof.
-  induction 1 as [|a a' r1 r2 [S _] _ IH]; intros p q b c Hp; cbn [wf_struct].
-  - destruct p, q; cbn in Hp; try contradiction; reflexivity.
-  - pose proof S as (Hh & Hk & Ht & Hu & _).
-    destruct p as [d|], q as [d'|]; cbn in Hp; try contradiction.
-    + destruct Hp as (Hdh & _ & _ & Hdu & _). rewrite Hk, Hh, Ht, Hdh, Hdu.
-      rewrite (IH None None true false I). reflexivity.
-    + rewrite Hk. destruct (a_kind a'); try reflexivity;
-        try (rewrite (IH None None b c I); reflexivity);
-        try (rewrite (IH None None b true I); reflexivity);
-        try (rewrite (IH None None false false I); reflexivity).
-      apply IH. exact S.
+  unfold hook_act. destruct act as [[d v]|]; intros E; inversion E; subst; [apply app_set_kinds|apply kinds_same_refl].
 Qed.
 
-Lemma db_ext_attrs d1 d2 : db_ext d1 d2 -> forallb wf_attr d1 = true -> forallb wf_attr d2 = true.
+Lemma kinds_lookup st st' h a : kinds_same st st' -> lookup h (st_db st) = Some a ->
+  exists a', lookup h (st_db st') = Some a' /\ a_kind a' = a_kind a.
 Proof.
-  induction 1 as [|a b r1 r2 [_ W] _ IH]; cbn [forallb]; [auto|].
-  intros H. apply andb_true_iff in H as [H1 H2]. apply andb_true_iff. auto.
+  intros K L. specialize (K h). rewrite L in K. destruct (lookup h (st_db st')) as [a'|]; [|discriminate].
+  exists a'. split; [reflexivity|]. cbn in K. congruence.
 Qed.
 
-Lemma db_ext_wf d1 d2 : db_ext d1 d2 -> wf_db d1 = true -> wf_db d2 = true.
+Lemma hook_act_wf st hk act o st1 pd res :
+  hook_act st hk act o = (st1, pd, res) -> wf_state st = true -> wf_act act = true -> wf_state st1 = true.
+Proof. intros E. destruct (hook_act_spec _ _ _ _ _ _ _ E) as (_ & _ & H & _). exact H. Qed.
+
+Lemma hook_act_override st hk act o st1 pd res x :
+  hook_act st hk act o = (st1, pd, res) -> res = HOut (HOverride x) -> o = HOverride x.
 Proof.
-  intros E. unfold wf_db. intros H. apply andb_true_iff in H as [H H3]. apply andb_true_iff in H as [H1 H2].
-  rewrite <- (db_ext_sorted _ _ E), H1, (db_ext_attrs _ _ E H2), <- (db_ext_struct _ _ E None None false false I), H3.
-  reflexivity.
+  intros E R. destruct (hook_act_spec _ _ _ _ _ _ _ E) as (_ & _ & _ & _ & _ & _ & H).
+  destruct (H _ R) as [->|Hn]; [reflexivity|discriminate Hn].
 Qed.
 
-Lemma lookup_ext d1 d2 h : db_ext d1 d2 ->
-  match lookup h d1, lookup h d2 with
-  | Some a, Some b => attr_ext a b
-  | None, None => True
-  | _, _ => False
-  end.
+Lemma post_hook_wf st hk act o out :
+  wf_state st = true -> wf_act act = true -> wf_state (r_state (post_hook st hk act o out)) = true.
 Proof.
-  induction 1 as [|a b r1 r2 E _ IH]; cbn [lookup]; [exact I|].
-  destruct E as [S W]. pose proof S as (Hh & _). rewrite <- Hh.
-  destruct (a_handle a =? h); [split; assumption|exact IH].
+  intros Hwf Ha. unfold post_hook. destruct (hook_act st hk act o) as [[st1 pd] res] eqn:E.
+  pose proof (hook_act_wf _ _ _ _ _ _ _ E Hwf Ha) as W.
+  destruct res as [o'|]; [destruct o'|]; exact W.
 Qed.
 
-Lemma update_ext h f db :
-  (forall a, lookup h db = Some a -> attr_ext a (f a)) -> db_ext db (update h f db).
+Lemma read_value_answer_wf st hk op opa h mk normal :
+  wf_state st = true -> wf_hooks hk = true ->
+  wf_state (r_state (read_value_answer st hk op opa h mk normal)) = true.
 Proof.
-  induction db as [|x r IH]; intros H; cbn [update]; [constructor|].
-  cbn [lookup] in H. destruct (a_handle x =? h).
-  - constructor; [apply H; reflexivity|apply db_ext_refl].
-  - constructor; [apply attr_ext_refl|apply IH, H].
+  intros Hwf Hh. apply wf_hooks_inv in Hh as (_ & _ & _ & _ & Ha). apply wf_acts_inv in Ha as (Ha & _).
+  unfold read_value_answer. destruct (hook_act st hk (ha_read (h_acts hk)) (h_read hk)) as [[st1 pd] res] eqn:E.
+  pose proof (hook_act_wf _ _ _ _ _ _ _ E Hwf Ha) as W.
+  destruct res as [o'|]; [|exact W].
+  destruct o' as [|x| | | | |g1 g2 g3|]; cbn [r_state done prepend]; try exact W; rewrite hook_error_state; exact W.
 Qed.
 
-Ltac andb_destr H := repeat (let H' := fresh H in apply andb_true_iff in H as [H H']).
-Ltac andb_split := repeat (apply andb_true_iff; split).
-
-Lemma set_value_ext a x :
-  wf_bytes x = true -> (a_kind a = KCccd -> nlen x = 2) -> attr_ext a (set_value a x).
+Lemma read_req_wf st hk h : wf_state st = true -> wf_hooks hk = true -> wf_state (r_state (h_read_req V_fixed st hk h)) = true.
 Proof.
-  intros Hx Hc. split; [unfold static_eq; cbn; tauto|].
-  unfold wf_attr. cbn [set_value a_handle a_kind a_type a_uuid a_value a_end a_props a_sec a_istart a_iend].
-  intros H. andb_destr H.
-  destruct (a_kind a) eqn:K; andb_destr H0; andb_split; try assumption.
-  apply N.eqb_eq. apply Hc. reflexivity.
+  intros Hwf Hh. unfold h_read_req. cbn [fx_read_default V_fixed].
+  destruct (h =? 0); [exact Hwf|].
+  destruct (lookup h (st_db st)) as [a|]; [|exact Hwf].
+  destruct (a_kind a); try exact Hwf.
+  destruct (read_denied st h); [exact Hwf|apply read_value_answer_wf; assumption].
 Qed.
 
-Lemma set_cbs_ext a n i : attr_ext a (set_cbs a n i).
-Proof. split; [unfold static_eq; cbn; tauto|]. unfold wf_attr. cbn. auto. Qed.
-
-Lemma queue_ok_ext d1 d2 q : db_ext d1 d2 ->
-  forallb (queue_entry_ok d1) q = true -> forallb (queue_entry_ok d2) q = true.
+Lemma read_blob_wf st hk h off : wf_state st = true -> wf_hooks hk = true -> wf_state (r_state (h_read_blob V_fixed st hk h off)) = true.
 Proof.
-  intros E H. rewrite forallb_forall in *. intros x Hin. specialize (H x Hin).
-  unfold queue_entry_ok in *. apply andb_true_iff in H as [H1 H2]. rewrite H2, andb_true_r.
-  pose proof (lookup_ext _ _ (fst x) E) as L.
-  destruct (lookup (fst x) d1); [|discriminate]. destruct (lookup (fst x) d2); [reflexivity|contradiction].
+  intros Hwf Hh. unfold h_read_blob, blob_value_branch. cbn [fx_blob V_fixed].
+  destruct (h =? 0); [exact Hwf|].
+  destruct (lookup h (st_db st)) as [a|]; [|exact Hwf].
+  destruct (a_kind a);
+    repeat match goal with
+    | |- context [read_denied st h] => destruct (read_denied st h)
+    | |- context [off <? ?x] => destruct (off <? x)
+    | |- context [off =? ?x] => destruct (off =? x)
+    end; try exact Hwf; apply read_value_answer_wf; assumption.
 Qed.
 
-Lemma wf_state_inv st : wf_state st = true ->
-  wf_db (st_db st) = true /\ 23 <= mtu_of st /\ mtu_of st <= 65535 /\ queue_ok st = true.
-Proof.
-  unfold wf_state. intros H. apply andb_true_iff in H as [H H4]. apply andb_true_iff in H as [H H3].
-  apply andb_true_iff in H as [H1 H2]. apply N.leb_le in H2, H3. auto.
-Qed.
-
-Lemma wf_state_intro st : wf_db (st_db st) = true -> 23 <= mtu_of st -> mtu_of st <= 65535 ->
-  queue_ok st = true -> wf_state st = true.
-Proof.
-  intros H1 H2 H3 H4. unfold wf_state. rewrite H1, H4. apply N.leb_le in H2, H3. rewrite H2, H3. reflexivity.
-Qed.
-
-Lemma wf_state_with_db st db' : wf_state st = true -> db_ext (st_db st) db' -> wf_state (with_db st db') = true.
-Proof.
-  intros H E. apply wf_state_inv in H as (H1 & H2 & H3 & H4).
-  apply wf_state_intro; try assumption.
-  - eapply db_ext_wf; eauto.
-  - unfold queue_ok in *. cbn. eapply queue_ok_ext; eauto.
-Qed.
-
-Lemma wf_state_with_lock st b : wf_state st = true -> wf_state (with_lock st b) = true.
-Proof. intros H. exact H. Qed.
-Lemma wf_state_with_lock_inv st b : wf_state (with_lock st b) = true -> wf_state st = true.
-Proof. intros H. exact H. Qed.
-Lemma wf_state_with_subs st l : wf_state st = true -> wf_state (with_subs st l) = true.
-Proof. intros H. exact H. Qed.
-
-Lemma wf_state_with_queues st q : wf_state st = true ->
-  forallb (queue_entry_ok (st_db st)) q = true -> wf_state (with_queues st q) = true.
-Proof.
-  intros H Hq. apply wf_state_inv in H as (H1 & H2 & H3 & H4). apply wf_state_intro; assumption.
-Qed.
-
-(** handlers that do not change the state *)
-Lemma find_info_state st s e : r_state (h_find_info st s e) = st.
-Proof. unfold h_find_info. break; reflexivity. Qed.
-Lemma fbtv_state v st s e ty vr : r_state (h_fbtv v st s e ty vr) = st.
-Proof. unfold h_fbtv. break; reflexivity. Qed.
-Lemma read_value_answer_state st op opa h o mk n ov : r_state (read_value_answer st op opa h o mk n ov) = st.
-Proof. destruct o as [|x| | | | |g1 g2 g3|]; reflexivity. Qed.
-Lemma read_req_state v st hk h : r_state (h_read_req v st hk h) = st.
-Proof.
-  unfold h_read_req.
-  repeat match goal with
-  | |- context [read_value_answer] => rewrite read_value_answer_state
-  | |- r_state (match ?x with _ => _ end) = _ => destruct x
-  | |- r_state (if ?x then _ else _) = _ => destruct x
-  end; reflexivity.
-Qed.
-Lemma read_blob_state v st hk h off : r_state (h_read_blob v st hk h off) = st.
-Proof.
-  unfold h_read_blob, blob_value_branch.
-  destruct (h =? 0); [reflexivity|]. destruct (lookup h (st_db st)) as [a|]; [|reflexivity].
-  destruct (fx_blob v); destruct (a_kind a); cbv beta iota zeta;
-  repeat match goal with
-  | |- context [read_denied st h] => destruct (read_denied st h)
-  | |- context [off <? ?x] => destruct (off <? x)
-  | |- context [off =? ?x] => destruct (off =? x)
-  | |- context [read_value_answer] => rewrite read_value_answer_state
-  end; reflexivity.
-Qed.
-Lemma read_by_type_state st s e ty : r_state (h_read_by_type st s e ty) = st.
-Proof. unfold h_read_by_type. break; reflexivity. Qed.
-Lemma read_by_group_state v st s e ty : r_state (h_read_by_group v st s e ty) = st.
-Proof. unfold h_read_by_group. break; reflexivity. Qed.
-
-Lemma hook_error_state st op opa h o : r_state (hook_error st op opa h o) = st.
-Proof. destruct o as [|x| | | | |g1 g2 g3|]; reflexivity. Qed.
-
-Lemma wf_outcome_override o x : wf_outcome o = true -> o = HOverride x -> wf_bytes x = true.
-Proof. intros H ->. exact H. Qed.
-
-Lemma wf_hooks_inv hk : wf_hooks hk = true ->
-  wf_outcome (h_read hk) = true /\ wf_outcome (h_write hk) = true /\ wf_outcome (h_written hk) = true
-  /\ wf_outcome (h_written2 hk) = true.
-Proof.
-  unfold wf_hooks. intros H. repeat (apply andb_true_iff in H as [H ?]). auto.
-Qed.
-
-Lemma store_value_wf st h a x :
-  wf_state st = true -> lookup h (st_db st) = Some a -> a_kind a <> KCccd -> wf_bytes x = true ->
+Lemma store_wf_kind st h x k :
+  wf_state st = true -> option_map a_kind (lookup h (st_db st)) = Some k -> k <> KCccd -> wf_bytes x = true ->
   wf_state (with_db st (update h (fun a => set_value a x) (st_db st))) = true.
 Proof.
-  intros Hwf Hl Hk Hx. apply wf_state_with_db; [exact Hwf|].
-  apply update_ext. intros a' Ha'. rewrite Hl in Ha'. inversion Ha'; subst.
-  apply set_value_ext; [exact Hx|]. intros K. contradiction.
+  intros Hwf Hl Hk Hx. destruct (lookup h (st_db st)) as [a|] eqn:E; [|discriminate]. cbn in Hl. inversion Hl; subst.
+  apply (store_value_wf st h a x Hwf E Hk Hx).
 Qed.
 
 Lemma write_value_wf st hk op opa h val rsp a :
@@ -1082,78 +1742,55 @@ Lemma write_value_wf st hk op opa h val rsp a :
   wf_bytes val = true -> wf_hooks hk = true ->
   wf_state (r_state (write_value st hk op opa h val rsp)) = true.
 Proof.
-  intros Hwf Hl Hk Hv Hh. apply wf_hooks_inv in Hh as (_ & Hw & Hwn & _).
-  assert (Hnc : a_kind a <> KCccd) by (rewrite Hk; discriminate).
-  unfold write_value.
-  destruct (h_write hk) as [|x| | | | |g1 g2 g3|] eqn:Ew; try (rewrite hook_error_state; exact Hwf).
-  - pose proof (store_value_wf st h a val Hwf Hl Hnc Hv) as H1.
-    destruct (h_written hk) as [|y| | | | |k1 k2 k3|] eqn:Ewn; cbn [r_state done raise];
-      try exact H1; try (rewrite hook_error_state; exact H1).
-    assert (H2 : wf_state (with_db (with_db st (update h (fun a0 => set_value a0 val) (st_db st)))
-                   (update h (fun a0 => set_value a0 y) (st_db (with_db st (update h (fun a0 => set_value a0 val) (st_db st)))))) = true).
-    { pose proof (lookup_ext _ _ h (update_ext h (fun a0 => set_value a0 val) (st_db st)
-         (fun a' Ha' => set_value_ext a' val Hv (fun K => ltac:(rewrite Hl in Ha'; inversion Ha'; subst; contradiction))))) as L.
-      rewrite Hl in L.
-      destruct (lookup h (update h (fun a0 => set_value a0 val) (st_db st))) as [b|] eqn:Eb; [|contradiction].
-      apply (store_value_wf _ h b y H1 Eb); [|exact Hwn].
-      destruct L as [(_ & Hkk & _) _]. rewrite <- Hkk. exact Hnc. }
-    destruct (h_written2 hk); exact H2.
-  - pose proof (store_value_wf st h a x Hwf Hl Hnc Hw) as H1.
-    destruct (h_written hk); exact H1.
+  intros Hwf Hl Hk Hv Hh. pose proof Hh as Hh0. apply wf_hooks_inv in Hh as (_ & Hw & Hwn & _ & Ha).
+  apply wf_acts_inv in Ha as (_ & Ha1 & Ha2 & Ha3 & _).
+  assert (K0 : option_map a_kind (lookup h (st_db st)) = Some KValue) by (rewrite Hl; cbn; congruence).
+  assert (Hnc : KValue <> KCccd) by discriminate.
+  unfold write_value. cbv zeta.
+  dha ha_write st1 pd1 res1 E1.
+  pose proof (hook_act_wf _ _ _ _ _ _ _ E1 Hwf Ha1) as W1.
+  pose proof (hook_act_kinds _ _ _ _ _ _ _ E1) as K1. 
+  assert (K1' : option_map a_kind (lookup h (st_db st1)) = Some KValue) by (rewrite K1; exact K0).
+  destruct res1 as [o1|]; [|exact W1].
+  destruct o1 as [|x| | | | |g1 g2 g3|]; try (cbn [r_state prepend]; rewrite hook_error_state; exact W1).
+  - pose proof (store_wf_kind st1 h val KValue W1 K1' Hnc Hv) as W2.
+    dha ha_written st3 pd3 res3 E3.
+    pose proof (hook_act_wf _ _ _ _ _ _ _ E3 W2 Ha2) as W3.
+    pose proof (hook_act_kinds _ _ _ _ _ _ _ E3) as K3.
+    destruct res3 as [o3|]; [|exact W3].
+    destruct o3 as [|y| | | | |k1 k2 k3|]; try exact W3; try (cbn [r_state prepend]; rewrite hook_error_state; exact W3).
+    apply post_hook_wf; [|exact Ha3].
+    rewrite (hook_act_override _ _ _ _ _ _ _ _ E3 eq_refl) in Hwn.
+    apply (store_wf_kind st3 h y KValue W3); [|exact Hnc|exact Hwn].
+    rewrite K3, (kinds_same_store st1 h val h). exact K1'.
+  - apply post_hook_wf; [|exact Ha2].
+    rewrite (hook_act_override _ _ _ _ _ _ _ _ E1 eq_refl) in Hw.
+    apply (store_wf_kind st1 h x KValue W1 K1' Hnc Hw).
 Qed.
 
 Lemma cccd_effects_wf st hk h newv record out a :
   wf_state st = true -> lookup h (st_db st) = Some a -> a_kind a = KCccd ->
-  wf_bytes newv = true -> nlen newv = 2 ->
+  wf_bytes newv = true -> nlen newv = 2 -> wf_hooks hk = true ->
   wf_state (r_state (cccd_effects st hk h newv record out)) = true.
 Proof.
-  intros Hwf Hl Hk Hv Hn. unfold cccd_effects.
+  intros Hwf Hl Hk Hv Hn Hh. apply wf_hooks_inv in Hh as (_ & _ & _ & _ & Ha).
+  apply wf_acts_inv in Ha as (_ & _ & _ & _ & Has & Hau).
+  unfold cccd_effects.
   assert (E1 : db_ext (st_db st) (update h (fun a0 => set_value a0 newv) (st_db st))).
   { apply update_ext. intros a' _. apply set_value_ext; [exact Hv|intros _; exact Hn]. }
-  assert (E2 : forall d f, (forall c, attr_ext c (f c)) ->
-               db_ext (st_db st) (update d f (update h (fun a0 => set_value a0 newv) (st_db st)))).
-  { intros d f Hf. eapply db_ext_trans; [exact E1|]. apply update_ext. intros c _. apply Hf. }
   pose proof (wf_state_with_db st _ Hwf E1) as W1.
   destruct (un_le16_2 newv) as [cfg|]; [|exact W1].
   destruct (owner_decl h (st_db st) None) as [d|]; [|exact W1].
+  assert (W2 : forall f, (forall c, attr_ext c (f c)) ->
+            wf_state (with_db (with_db st (update h (fun a0 => set_value a0 newv) (st_db st)))
+                              (update d f (update h (fun a0 => set_value a0 newv) (st_db st)))) = true).
+  { intros f Hf. apply (wf_state_with_db _ _ W1). apply update_ext. intros c _. apply Hf. }
   destruct (cfg =? 1).
-  { assert (W : wf_state (with_db (with_db st (update h (fun a0 => set_value a0 newv) (st_db st)))
-             (update d (fun c => set_cbs c (Some (i_id (st_cur st))) (a_icb c)) (update h (fun a0 => set_value a0 newv) (st_db st)))) = true).
-    { apply (wf_state_with_db _ _ W1). apply update_ext. intros c _. apply set_cbs_ext. }
-    destruct record; destruct (h_sub hk); exact W. }
+  { destruct record; apply post_hook_wf; try exact Has; apply (W2 (fun c => set_cbs c (Some (i_id (st_cur st))) (a_icb c))); intros; apply set_cbs_ext. }
   destruct (cfg =? 2).
-  { assert (W : wf_state (with_db (with_db st (update h (fun a0 => set_value a0 newv) (st_db st)))
-             (update d (fun c => set_cbs c (a_ncb c) (Some (i_id (st_cur st)))) (update h (fun a0 => set_value a0 newv) (st_db st)))) = true).
-    { apply (wf_state_with_db _ _ W1). apply update_ext. intros c _. apply set_cbs_ext. }
-    destruct record; destruct (h_sub hk); exact W. }
+  { destruct record; apply post_hook_wf; try exact Has; apply (W2 (fun c => set_cbs c (a_ncb c) (Some (i_id (st_cur st))))); intros; apply set_cbs_ext. }
   destruct (cfg =? 0); [|exact W1].
-  assert (W : wf_state (with_db (with_db st (update h (fun a0 => set_value a0 newv) (st_db st)))
-             (update d (fun c => set_cbs c None None) (update h (fun a0 => set_value a0 newv) (st_db st)))) = true).
-  { apply (wf_state_with_db _ _ W1). apply update_ext. intros c _. apply set_cbs_ext. }
-  destruct (h_unsub hk); exact W.
-Qed.
-
-Lemma wf_bytes_skipn n l : wf_bytes l = true -> wf_bytes (skipn n l) = true.
-Proof.
-  revert l. induction n as [|n IH]; intros l H; [exact H|]. destruct l as [|x r]; [reflexivity|].
-  cbn [skipn]. apply IH. cbn in H. apply andb_true_iff in H. tauto.
-Qed.
-Lemma wf_bytes_firstn n l : wf_bytes l = true -> wf_bytes (firstn n l) = true.
-Proof.
-  revert l. induction n as [|n IH]; intros l H; [reflexivity|]. destruct l as [|x r]; [reflexivity|].
-  cbn in H. apply andb_true_iff in H as [H1 H2]. cbn. rewrite H1. apply IH, H2.
-Qed.
-
-Lemma wf_attr_value a : wf_attr a = true -> wf_bytes (a_value a) = true /\ (a_kind a = KCccd -> nlen (a_value a) = 2).
-Proof.
-  unfold wf_attr. intros H. apply andb_true_iff in H as [H K]. repeat (apply andb_true_iff in H as [H ?]).
-  split; [assumption|]. intros E. rewrite E in K. apply andb_true_iff in K as [_ K]. apply N.eqb_eq, K.
-Qed.
-
-Lemma wf_state_attrs st : wf_state st = true -> forallb wf_attr (st_db st) = true.
-Proof.
-  intros H. apply wf_state_inv in H as (H & _). unfold wf_db in H.
-  apply andb_true_iff in H as [H _]. apply andb_true_iff in H as [_ H]. exact H.
+  apply post_hook_wf; [|exact Hau]. apply (W2 (fun c => set_cbs c None None)). intros; apply set_cbs_ext.
 Qed.
 
 Lemma write_gen_wf st hk is_cmd h val :
@@ -1265,7 +1902,7 @@ Lemma locked_state_wf v st body :
   wf_state (r_state (locked v st body)) = true.
 Proof.
   intros Hb Hwf. unfold locked. destruct (tx_locked st); [exact Hwf|].
-  destruct (r_exc (body (with_lock st true))); cbn [r_state]; exact Hb.
+  destruct (r_exc (body (with_lock st true))) as [[]|]; cbn [r_state]; exact Hb.
 Qed.
 
 (** well-formedness is an invariant of the server *)
@@ -1283,8 +1920,8 @@ Proof.
   - rewrite fbtv_state. exact Hwf'.
   - rewrite read_by_type_state. exact Hwf'.
   - rewrite read_by_type_state. exact Hwf'.
-  - rewrite read_req_state. exact Hwf'.
-  - rewrite read_blob_state. exact Hwf'.
+  - apply read_req_wf; assumption.
+  - apply read_blob_wf; assumption.
   - destruct hs; [exact Hwf|]. apply locked_state_wf; [exact Hwf'|exact Hwf].
   - rewrite read_by_group_state. exact Hwf'.
   - apply andb_true_iff in Hr as [_ Hr]. apply write_gen_wf; assumption.
@@ -1297,39 +1934,60 @@ Qed.
 (** * Sessions *)
 
 Lemma step_ok_holds st r hk :
-  wf_state st = true -> tx_locked st = false -> wf_request (mtu_of st) r = true -> step_ok st r hk.
+  wf_state st = true -> wf_request (mtu_of st) r = true -> step_ok st r hk.
 Proof.
-  intros Hwf Hl Hr. unfold step_ok. cbv zeta. repeat split.
-  - apply never_wedges, Hl.
+  intros Hwf Hr. unfold step_ok. cbv zeta. split; [|split; [|split]].
+  - intros Hl Hp Hq. apply never_wedges; assumption.
   - apply fits_mtu; assumption.
   - intros s e Hs. apply list_response_wf; assumption.
-  - apply (one_response st r hk Hl Hr H H0).
-  - apply (one_response st r hk Hl Hr H H0).
-  - apply (one_response st r hk Hl Hr H H0).
+  - intros Hl Hp Hq Hb Hw. apply (one_response st r hk Hl Hp Hq Hr Hb Hw).
 Qed.
 
 Lemma session_ok (s : session) : forall st,
-  wf_state st = true -> tx_locked st = false -> inputs_ok st s ->
+  wf_state st = true -> inputs_ok st s ->
   every_step step_ok st s
-  /\ tx_locked (fold_left session_step s st) = false
-  /\ wf_state (fold_left session_step s st) = true.
+  /\ wf_state (fold_left session_step s st) = true
+  /\ (tx_locked st = false -> proc_free st = true -> quiet_notif s ->
+      tx_locked (fold_left session_step s st) = false /\ proc_free (fold_left session_step s st) = true).
 Proof.
-  induction s as [|[r hk] t IH]; intros st Hwf Hl Hin; cbn [every_step fold_left inputs_ok] in *.
+  induction s as [|[r hk] t IH]; intros st Hwf Hin; cbn [every_step fold_left inputs_ok] in *.
   - auto.
   - destruct Hin as (Hr & Hh & Hin). cbn [fst snd] in *.
     assert (Hwf' : wf_state (session_step st (r, hk)) = true) by (apply step_wf; assumption).
-    assert (Hl' : tx_locked (session_step st (r, hk)) = false) by (apply never_wedges, Hl).
-    destruct (IH _ Hwf' Hl' Hin) as (H1 & H2 & H3).
-    split; [split; [apply step_ok_holds; assumption|exact H1]|split; assumption].
+    destruct (IH _ Hwf' Hin) as (H1 & H2 & H3).
+    split; [split; [apply step_ok_holds; assumption|exact H1]|]. split; [exact H2|].
+    intros Hl Hp Hq. inversion Hq; subst. cbn [snd] in *.
+    destruct (never_wedges st r hk Hl Hp H4) as [Hl' Hp']. apply H3; assumption.
 Qed.
+
+(** what a hook returns with a plain [return] is ignored *)
+Definition with_rets (hk : hook_oracle) (r : hook_rets) : hook_oracle :=
+  mkHooks (h_read hk) (h_write hk) (h_written hk) (h_written2 hk) (h_sub hk) (h_unsub hk) (h_notif hk) (h_indic hk)
+          (h_acts hk) r.
+
+Lemma app_set_rets st d v hk r : app_set st d v (with_rets hk r) = app_set st d v hk.
+Proof. reflexivity. Qed.
+
+Lemma returns_ignored v st rq hk r : handle v st rq (with_rets hk r) = handle v st rq hk.
+Proof. destruct rq; reflexivity. Qed.
 
 (** * Witnesses: the original code (V_orig) and the remaining findings (V_fixed) *)
 
 Lemma demo_wf : wf_state demo_state = true.
 Proof. vm_compute. reflexivity. Qed.
 
-Definition raising_read : hook_oracle := mkHooks HRaiseOther HReturn HReturn HReturn HReturn HReturn HReturn HReturn.
-Definition written_authent : hook_oracle := mkHooks HReturn HReturn HAuthent HReturn HReturn HReturn HReturn HReturn.
+Definition raising_read : hook_oracle :=
+  mkHooks HRaiseOther HReturn HReturn HReturn HReturn HReturn HReturn HReturn no_acts no_rets.
+Definition written_authent : hook_oracle :=
+  mkHooks HReturn HReturn HAuthent HReturn HReturn HReturn HReturn HReturn no_acts no_rets.
+(** the notification hook raises *)
+Definition raising_notif : hook_oracle :=
+  mkHooks HReturn HReturn HReturn HReturn HReturn HReturn HRaiseOther HReturn no_acts no_rets.
+(** the read hook updates the characteristic declared at handle 5 and returns 600 bytes *)
+Definition updating_read : hook_oracle :=
+  mkHooks HReturn HReturn HReturn HReturn HReturn HReturn HReturn HReturn
+          (mkActs (Some (5, [2])) None None None None None)
+          (mkRets (RBytes (repeat 7 600)) RNone RNone RNone RNone RNone RNone RNone).
 
 (** original code: the lock stays held (a) when a user hook raises, (b) on Find By Type Value for a
     characteristic-value type, (c) on Read By Group Type for a descriptor type *)
@@ -1366,16 +2024,35 @@ Proof. vm_compute. auto. Qed.
 Lemma unknown_opcode_unanswered st op body : snd (server_step st (UnknownOp op body) no_hooks) = [].
 Proof. reflexivity. Qed.
 
-(** non-vacuity of the session theorem: a session on the demo database meeting all hypotheses
-    and exercising requests, a command and an indication *)
+(** finding: the client subscribes (handle 7), the application changes the value while the
+    notification hook raises -- proclock keeps the procedure lock --, then a request whose read hook
+    updates that characteristic blocks for ever inside the handler: the server is wedged *)
+Definition wedge_history : list event :=
+  [ EvReq (Write 7 [1; 0]) no_hooks; EvAppSet 5 [1] raising_notif; EvReq (Read 4) updating_read ].
+
+Lemma notif_hook_then_update_wedges :
+  wf_state demo_state = true /\ tx_locked demo_state = false /\ proc_free demo_state = true
+  /\ snd (run V_fixed demo_state wedge_history) = [ [PWriteRsp]; []; [] ]
+  /\ tx_locked (run_state V_fixed demo_state wedge_history) = true
+  /\ proc_free (run_state V_fixed demo_state [EvReq (Write 7 [1; 0]) no_hooks; EvAppSet 5 [1] raising_notif]) = false.
+Proof. vm_compute. repeat split; reflexivity. Qed.
+
+(** the same request when the notification hook behaved: the notification goes out in the
+    middle of the request, before the response; the 600 bytes the hook returns are ignored *)
+Lemma update_inside_hook_ok :
+  snd (run V_fixed demo_state [EvReq (Write 7 [1; 0]) no_hooks; EvAppSet 5 [1] no_hooks; EvReq (Read 4) updating_read])
+  = [ [PWriteRsp]; [PNotification 6 [1]]; [PNotification 6 [2]; PReadRsp [104; 105]] ].
+Proof. vm_compute. reflexivity. Qed.
+
+(** non-vacuity of the session theorem *)
 Definition demo_session : session :=
   [ (ExchangeMtu 50, no_hooks); (FindInfo 1 65535, no_hooks); (Read 4, no_hooks); (ReadBlob 10 3, no_hooks);
     (Write 7 [1;0], no_hooks); (WriteCmd 4 [7;7], no_hooks); (PrepareWrite 10 0 [9], no_hooks);
     (ExecuteWrite 1, no_hooks); (ReadByGroupType 1 65535 10240, no_hooks); (Indication 4 [1], no_hooks);
-    (FindByTypeValue 1 65535 10752 [7;7], no_hooks); (Read 8, raising_read) ].
+    (FindByTypeValue 1 65535 10752 [7;7], no_hooks); (Read 8, raising_read); (Read 4, updating_read) ].
 
-Lemma demo_session_inputs : inputs_ok demo_state demo_session.
-Proof. vm_compute. repeat split. Qed.
+Lemma demo_session_inputs : inputs_ok demo_state demo_session /\ quiet_notif demo_session.
+Proof. split; [vm_compute; repeat split|repeat constructor]. Qed.
 
 Lemma demo_session_outputs :
   snd (run V_fixed demo_state (map (fun x => EvReq (fst x) (snd x)) demo_session))
@@ -1383,5 +2060,5 @@ Lemma demo_session_outputs :
       [PFindInfoRsp 1 [(1,[0;40]); (2,[2;40]); (3,[3;40]); (4,[0;42]); (5,[3;40]); (6,[25;42]); (7,[2;41]); (8,[1;40]); (9,[3;40]); (10,[1;42]); (11,[1;41])]];
       [PReadRsp [104;105]]; [PError 12 10 2]; [PWriteRsp]; []; [PPrepareWriteRsp 10 0 [9]];
       [PExecuteWriteRsp]; [PReadByGroupTypeRsp 6 [(1,7,[0;24])]]; [PConfirmation];
-      [PFindByTypeValueRsp [(4,4)]]; [PReadRsp [15;24]] ].
+      [PFindByTypeValueRsp [(4,4)]]; [PReadRsp [15;24]]; [PNotification 6 [2]; PReadRsp [7;7]] ].
 Proof. vm_compute. reflexivity. Qed.
